@@ -1,8 +1,2569 @@
-//! C20 — monitor not built yet.
+//! C20 — surfaces are total, bounded, deterministic folds over the frame stream.
+//!
+//! Part A (directed, shard 0, every run): the P1 probe (seq 10,12,13 → get_by_seq(11)), selection
+//! after out-of-order seq, saturated base_seq, truncation-boundary sweeps (every char width ×
+//! every byte offset × small capacities; 8 KiB previews), and a render sweep (every terminal
+//! width 1..=130 and height 1..=30 × overlays × a few fixed states).
+//! Part B (headless): the REAL `rip run --server <fake authority> --view raw|output|metrics`
+//! consumes generated frame sequences as SSE (whole body vs. hostile HTTP chunking + keep-alive
+//! comments): no panic, equal stdout, raw view echoes the payloads up to the terminal frame.
+//! Part C (exploration): seeded frame sequences over all 38 `EventKind` variants folded into
+//! `TuiState` with UI operations interleaved; after every step the bounds, lookup-by-seq,
+//! accessor totality and `rip_tui::render` on `TestBackend`s are judged; the same script folded
+//! into a second fresh state (and into a mid-way clone) must give the same `Debug` rendering and
+//! the same render buffers.
+
+#[path = "fakeauth.rs"]
+pub mod fakeauth;
+
+use crate::prng::{fnv, Rng};
 use crate::report::{Cfg, Report};
+use fakeauth::{sse_body, FakeAuthority, StreamSpec};
+use ratatui::backend::TestBackend;
+use ratatui::buffer::Buffer;
+use ratatui::Terminal;
+use rip_kernel::{
+    CheckpointAction, CompactionPlannedCutPoint, ContextSelectionCompactionCheckpointV1,
+    ContextSelectionResetV1, Event, EventKind, ProviderEventStatus, ToolTaskExecutionMode, ToolTaskStatus,
+    ToolTaskStream,
+};
+use rip_tui::{Overlay, RenderMode, TuiState};
+use serde_json::{json, Value};
+use std::cell::{Cell, RefCell};
+use std::collections::{BTreeSet, HashMap};
+use std::panic::{catch_unwind, AssertUnwindSafe};
+use std::sync::{Mutex, Once};
+use std::time::{Duration, Instant};
+
+/// `DEFAULT_MAX_PREVIEW_BYTES` in rip-tui/src/state.rs (private, not configurable through
+/// `TuiState::new`); the only preview bound that IS configured.
+const PREVIEW_LIMIT: usize = 8192;
+const CLI_LANE: u64 = 1 << 40;
+const DEFAULT_RIP_BIN: &str = "/verif/target/repo/release/rip";
+
+// ---------------------------------------------------------------------------------------------
+// panic capture
+
+#[derive(Clone, Debug)]
+pub struct PanicRec {
+    pub msg: String,
+    pub file: String,
+    pub line: u32,
+    /// first frame of a rip crate on the panicking stack (function path), or "?"
+    pub site: String,
+}
+
+thread_local! {
+    static CAPTURE: Cell<bool> = const { Cell::new(false) };
+    static LAST_PANIC: RefCell<Option<PanicRec>> = const { RefCell::new(None) };
+    /// what the caller is doing (view/overlay being rendered): part of the key under which the
+    /// resolved call site of a panic location is cached (one location inside ratatui is reached
+    /// from several rip functions; symbolizing every backtrace would cost milliseconds each)
+    static CONTEXT: RefCell<String> = const { RefCell::new(String::new()) };
+}
+
+fn set_context(s: &str) {
+    CONTEXT.with(|c| {
+        let mut c = c.borrow_mut();
+        if c.as_str() != s {
+            c.clear();
+            c.push_str(s);
+        }
+    });
+}
+static HOOK: Once = Once::new();
+static LIGHT: std::sync::atomic::AtomicBool = std::sync::atomic::AtomicBool::new(false);
+static SITE_CACHE: Mutex<Option<HashMap<String, String>>> = Mutex::new(None);
+
+fn install_hook() {
+    HOOK.call_once(|| {
+        let prev = std::panic::take_hook();
+        std::panic::set_hook(Box::new(move |info| {
+            if !CAPTURE.with(|c| c.get()) {
+                prev(info);
+                return;
+            }
+            let msg = if let Some(s) = info.payload().downcast_ref::<&str>() {
+                s.to_string()
+            } else if let Some(s) = info.payload().downcast_ref::<String>() {
+                s.clone()
+            } else {
+                "<non-string panic payload>".to_string()
+            };
+            let (file, line, col) = info
+                .location()
+                .map(|l| (l.file().to_string(), l.line(), l.column()))
+                .unwrap_or_default();
+            let key = format!("{file}:{line}:{col}|{}", CONTEXT.with(|c| c.borrow().clone()));
+            let cached = SITE_CACHE.lock().ok().and_then(|g| g.as_ref().and_then(|m| m.get(&key).cloned()));
+            let site = match cached {
+                Some(s) => s,
+                None => {
+                    let bt = std::backtrace::Backtrace::force_capture().to_string();
+                    let s = site_from_backtrace(&bt);
+                    if let Ok(mut g) = SITE_CACHE.lock() {
+                        g.get_or_insert_with(HashMap::new).insert(key, s.clone());
+                    }
+                    s
+                }
+            };
+            LAST_PANIC.with(|p| *p.borrow_mut() = Some(PanicRec { msg, file, line, site }));
+        }));
+    });
+}
+
+fn site_from_backtrace(bt: &str) -> String {
+    for line in bt.lines() {
+        let t = line.trim_start();
+        let Some((num, sym)) = t.split_once(": ") else { continue };
+        if num.is_empty() || !num.bytes().all(|b| b.is_ascii_digit()) {
+            continue;
+        }
+        let sym = sym.trim();
+        if sym.starts_with("rip_") || sym.starts_with("<rip_") || sym.starts_with("rip::") {
+            // strip the hash suffix
+            let s = match sym.rfind("::h") {
+                Some(p) if sym.len() - p == 19 => &sym[..p],
+                _ => sym,
+            };
+            return s.to_string();
+        }
+    }
+    "?".to_string()
+}
+
+fn guarded<T>(f: impl FnOnce() -> T) -> Result<T, PanicRec> {
+    install_hook();
+    CAPTURE.with(|c| c.set(true));
+    LAST_PANIC.with(|p| *p.borrow_mut() = None);
+    let res = catch_unwind(AssertUnwindSafe(f));
+    CAPTURE.with(|c| c.set(false));
+    match res {
+        Ok(v) => Ok(v),
+        Err(_) => Err(LAST_PANIC.with(|p| p.borrow_mut().take()).unwrap_or(PanicRec {
+            msg: "<panic not recorded>".into(),
+            file: String::new(),
+            line: 0,
+            site: "?".into(),
+        })),
+    }
+}
+
+fn basename(p: &str) -> &str {
+    p.rsplit('/').next().unwrap_or(p)
+}
+
+fn panic_signature(phase: &str, p: &PanicRec) -> String {
+    format!("C20/panic/{phase}/{}@{}", p.site, basename(&p.file))
+}
+
+// ---------------------------------------------------------------------------------------------
+// EventKind table
+
+pub const N_VARIANTS: usize = 38;
+
+/// Exhaustive on purpose: a new variant in rip-kernel breaks the build of the monitor until the
+/// generator table below covers it.
+pub fn variant_index(k: &EventKind) -> usize {
+    match k {
+        EventKind::SessionStarted { .. } => 0,
+        EventKind::OutputTextDelta { .. } => 1,
+        EventKind::SessionEnded { .. } => 2,
+        EventKind::ContinuityCreated { .. } => 3,
+        EventKind::ContinuityMessageAppended { .. } => 4,
+        EventKind::ContinuityRunSpawned { .. } => 5,
+        EventKind::ContinuityContextSelectionDecided { .. } => 6,
+        EventKind::ContinuityContextCompiled { .. } => 7,
+        EventKind::ContinuityProviderCursorUpdated { .. } => 8,
+        EventKind::ContinuityCompactionCheckpointCreated { .. } => 9,
+        EventKind::ContinuityCompactionAutoScheduleDecided { .. } => 10,
+        EventKind::ContinuityJobSpawned { .. } => 11,
+        EventKind::ContinuityJobEnded { .. } => 12,
+        EventKind::ContinuityRunEnded { .. } => 13,
+        EventKind::ContinuityToolSideEffects { .. } => 14,
+        EventKind::ContinuityBranched { .. } => 15,
+        EventKind::ContinuityHandoffCreated { .. } => 16,
+        EventKind::ToolStarted { .. } => 17,
+        EventKind::ToolStdout { .. } => 18,
+        EventKind::ToolStderr { .. } => 19,
+        EventKind::ToolEnded { .. } => 20,
+        EventKind::ToolFailed { .. } => 21,
+        EventKind::OpenResponsesRequest { .. } => 22,
+        EventKind::OpenResponsesRequestStarted { .. } => 23,
+        EventKind::OpenResponsesResponseHeaders { .. } => 24,
+        EventKind::OpenResponsesResponseFirstByte { .. } => 25,
+        EventKind::ProviderEvent { .. } => 26,
+        EventKind::CheckpointCreated { .. } => 27,
+        EventKind::CheckpointRewound { .. } => 28,
+        EventKind::CheckpointFailed { .. } => 29,
+        EventKind::ToolTaskSpawned { .. } => 30,
+        EventKind::ToolTaskStatus { .. } => 31,
+        EventKind::ToolTaskCancelRequested { .. } => 32,
+        EventKind::ToolTaskCancelled { .. } => 33,
+        EventKind::ToolTaskOutputDelta { .. } => 34,
+        EventKind::ToolTaskStdinWritten { .. } => 35,
+        EventKind::ToolTaskResized { .. } => 36,
+        EventKind::ToolTaskSignalled { .. } => 37,
+    }
+}
+
+pub const VARIANT_NAMES: [&str; N_VARIANTS] = [
+    "session_started",
+    "output_text_delta",
+    "session_ended",
+    "continuity_created",
+    "continuity_message_appended",
+    "continuity_run_spawned",
+    "continuity_context_selection_decided",
+    "continuity_context_compiled",
+    "continuity_provider_cursor_updated",
+    "continuity_compaction_checkpoint_created",
+    "continuity_compaction_auto_schedule_decided",
+    "continuity_job_spawned",
+    "continuity_job_ended",
+    "continuity_run_ended",
+    "continuity_tool_side_effects",
+    "continuity_branched",
+    "continuity_handoff_created",
+    "tool_started",
+    "tool_stdout",
+    "tool_stderr",
+    "tool_ended",
+    "tool_failed",
+    "openresponses_request",
+    "openresponses_request_started",
+    "openresponses_response_headers",
+    "openresponses_response_first_byte",
+    "provider_event",
+    "checkpoint_created",
+    "checkpoint_rewound",
+    "checkpoint_failed",
+    "tool_task_spawned",
+    "tool_task_status",
+    "tool_task_cancel_requested",
+    "tool_task_cancelled",
+    "tool_task_output_delta",
+    "tool_task_stdin_written",
+    "tool_task_resized",
+    "tool_task_signalled",
+];
+
+/// Variants that drive the derived state (tools, tasks, jobs, context, output) — picked more often.
+const HOT: [usize; 16] = [0, 1, 1, 2, 6, 7, 11, 12, 17, 18, 19, 20, 21, 30, 31, 34];
+
+const U64_SPECIAL: [u64; 12] = [
+    0,
+    1,
+    2,
+    10,
+    u32::MAX as u64,
+    (u32::MAX as u64) + 1,
+    i64::MAX as u64,
+    (i64::MAX as u64) + 1,
+    u64::MAX - 2,
+    u64::MAX - 1,
+    u64::MAX,
+    1_700_000_000_000,
+];
+
+const W1: &[char] = &['a', 'b', 'Z', '0', '9', ' ', ' ', '\n', '\t', '"', '\\', '/', '[', ']', '\r', '\u{1}', '\u{1b}', '\u{7f}'];
+const W2: &[char] = &['é', 'ß', 'ü', 'Ω', '\u{301}', '\u{7ff}', '\u{80}', '\u{a0}'];
+const W3: &[char] = &['中', '文', '→', '⟳', '⚙', '…', '\u{2028}', '\u{2029}', '\u{feff}', '\u{200b}', '\u{ffff}', '\u{800}'];
+const W4: &[char] = &['🙂', '🚀', '📄', '𝄞', '\u{10000}', '\u{10ffff}'];
+
+fn ch(rng: &mut Rng, width: usize) -> char {
+    match width {
+        1 => *rng.pick(W1),
+        2 => *rng.pick(W2),
+        3 => *rng.pick(W3),
+        _ => *rng.pick(W4),
+    }
+}
+
+/// Random characters of every UTF-8 width until at least `bytes` bytes are produced.
+fn mixed(rng: &mut Rng, bytes: usize) -> String {
+    let mut s = String::with_capacity(bytes + 4);
+    while s.len() < bytes {
+        let w = 1 + rng.usize(4);
+        s.push(ch(rng, w));
+    }
+    s
+}
+
+/// One character of width `w` repeated behind an ASCII prefix of `offset` bytes, `bytes` long at
+/// least: every later byte position ≡ offset (mod w) is a boundary, all others are inside a char.
+fn uniform(c: char, offset: usize, bytes: usize) -> String {
+    let mut s = "x".repeat(offset);
+    while s.len() < bytes {
+        s.push(c);
+    }
+    s
+}
+
+fn hex64(rng: &mut Rng) -> String {
+    // small pool so that artifact sets overlap between frames
+    let n = rng.below(6);
+    if n == 5 {
+        format!("{:064X}", 0xA11CE000u64 + n)
+    } else {
+        format!("{:064x}", 0xa11ce000u64 + n)
+    }
+}
+
+pub struct Gen<'a> {
+    pub rng: &'a mut Rng,
+    /// configured output bound of the state under test (text is sized around it)
+    pub out_hint: usize,
+    /// how many multi-KiB strings this case may still produce
+    pub big_budget: usize,
+}
+
+impl Gen<'_> {
+    fn u64v(&mut self) -> u64 {
+        match self.rng.below(4) {
+            0 => *self.rng.pick(&U64_SPECIAL),
+            1 => self.rng.below(100),
+            2 => self.rng.next_u64(),
+            _ => self.rng.below(1 << 20),
+        }
+    }
+
+    fn text(&mut self, hint: usize) -> String {
+        let hint = hint.min(4096);
+        match self.rng.below(12) {
+            0 => String::new(),
+            1 => [" ", "  \n", "\t", "\n\n"][self.rng.usize(4)].to_string(),
+            2..=4 => {
+                let n = 1 + self.rng.usize(12);
+                mixed(self.rng, n)
+            }
+            5 | 6 => {
+                let off = self.rng.usize(4);
+                let target = (hint + self.rng.usize(9)).saturating_sub(4);
+                let mut s = "x".repeat(off);
+                s.push_str(&mixed(self.rng, target));
+                s
+            }
+            7 | 8 => {
+                let w = 1 + self.rng.usize(4);
+                let c = ch(self.rng, w);
+                let off = self.rng.usize(5);
+                uniform(c, off, hint + 1 + self.rng.usize(6))
+            }
+            9 => {
+                let n = (hint / 2 + self.rng.usize(5)).saturating_sub(2);
+                mixed(self.rng, n)
+            }
+            10 => {
+                let n = 1 + self.rng.usize(40);
+                self.rng.unicode(n)
+            }
+            _ => {
+                let n = self.rng.usize(30);
+                self.rng.ascii(n)
+            }
+        }
+    }
+
+    /// chunk for a preview: now and then several KiB so that the 8 KiB preview bound is crossed
+    /// with the cut falling at every offset inside multi-byte characters
+    fn chunk(&mut self) -> String {
+        if self.big_budget > 0 && self.rng.chance(1, 4) {
+            self.big_budget -= 1;
+            let w = 1 + self.rng.usize(4);
+            let off = self.rng.usize(5);
+            let bytes = [3000usize, 4090, 4097, 8190, 8193, 9001][self.rng.usize(6)] + self.rng.usize(8);
+            if self.rng.bool() {
+                let c = ch(self.rng, w);
+                uniform(c, off, bytes)
+            } else {
+                let mut s = "x".repeat(off);
+                s.push_str(&mixed(self.rng, bytes));
+                s
+            }
+        } else {
+            self.text(64)
+        }
+    }
+
+    fn name(&mut self) -> String {
+        match self.rng.below(8) {
+            0 => String::new(),
+            1 => "ls".into(),
+            2 => "cat".into(),
+            3 => "bash".into(),
+            4 => "apply_patch".into(),
+            5 => {
+                let n = 1 + self.rng.usize(10);
+                mixed(self.rng, n)
+            }
+            6 => {
+                let n = 20 + self.rng.usize(80);
+                mixed(self.rng, n)
+            }
+            _ => {
+                let n = 1 + self.rng.usize(12);
+                self.rng.ident(n)
+            }
+        }
+    }
+
+    fn id(&mut self, prefix: &str) -> String {
+        match self.rng.below(10) {
+            0..=5 => format!("{prefix}{}", 1 + self.rng.below(3)),
+            6 => format!("{prefix}-unknown-{}", self.rng.below(4)),
+            7 => String::new(),
+            8 => {
+                let n = 1 + self.rng.usize(6);
+                mixed(self.rng, n)
+            }
+            _ => format!("{prefix}{}", 1 + self.rng.below(40)),
+        }
+    }
+
+    fn opt<T>(&mut self, f: impl FnOnce(&mut Self) -> T) -> Option<T> {
+        if self.rng.bool() {
+            Some(f(self))
+        } else {
+            None
+        }
+    }
+
+    fn value(&mut self, depth: u32) -> Value {
+        match self.rng.below(if depth == 0 { 7 } else { 10 }) {
+            0 => Value::Null,
+            1 => json!(self.rng.bool()),
+            2 => json!(self.u64v()),
+            3 => json!(-(self.rng.below(1 << 40) as i64)),
+            4 => json!((self.rng.below(1_000_000) as f64) / 7.0),
+            5 => json!(self.text(16)),
+            6 => json!(hex64(self.rng)),
+            7 | 8 => {
+                let n = self.rng.usize(4);
+                let mut m = serde_json::Map::new();
+                for _ in 0..n {
+                    let k = if self.rng.chance(1, 4) { mixed(self.rng, 3) } else { self.rng.ident(4) };
+                    m.insert(k, self.value(depth - 1));
+                }
+                Value::Object(m)
+            }
+            _ => {
+                let n = self.rng.usize(4);
+                Value::Array((0..n).map(|_| self.value(depth - 1)).collect())
+            }
+        }
+    }
+
+    fn artifacts(&mut self) -> Option<Value> {
+        match self.rng.below(5) {
+            0 | 1 => None,
+            2 => Some(json!({"stdout": hex64(self.rng), "stderr": hex64(self.rng)})),
+            3 => Some(self.value(2)),
+            _ => Some(json!([hex64(self.rng), "not-an-id", {"nested": [hex64(self.rng)]}])),
+        }
+    }
+
+    fn strings(&mut self, max: usize) -> Vec<String> {
+        let n = self.rng.usize(max + 1);
+        (0..n).map(|_| self.text(120)).collect()
+    }
+
+    fn task_status(&mut self) -> ToolTaskStatus {
+        *self.rng.pick(&[
+            ToolTaskStatus::Queued,
+            ToolTaskStatus::Running,
+            ToolTaskStatus::Exited,
+            ToolTaskStatus::Cancelled,
+            ToolTaskStatus::Failed,
+        ])
+    }
+
+    fn ckpt(&mut self) -> ContextSelectionCompactionCheckpointV1 {
+        ContextSelectionCompactionCheckpointV1 {
+            checkpoint_id: self.id("ck"),
+            summary_kind: self.text(16),
+            summary_artifact_id: hex64(self.rng),
+            to_seq: self.u64v(),
+        }
+    }
+
+    /// Table-driven: one constructor per variant index (see `variant_index`).
+    pub fn kind(&mut self, v: usize) -> EventKind {
+        let oh = self.out_hint;
+        match v {
+            0 => EventKind::SessionStarted { input: self.text(oh) },
+            1 => EventKind::OutputTextDelta { delta: self.text(oh) },
+            2 => EventKind::SessionEnded { reason: self.text(64) },
+            3 => EventKind::ContinuityCreated { workspace: self.text(64), title: self.opt(|g| g.text(64)) },
+            4 => EventKind::ContinuityMessageAppended {
+                actor_id: self.id("actor"),
+                origin: self.text(8),
+                content: self.text(64),
+            },
+            5 => EventKind::ContinuityRunSpawned {
+                run_session_id: self.text(16),
+                message_id: self.id("m"),
+                actor_id: self.opt(|g| g.id("actor")),
+                origin: self.opt(|g| g.text(8)),
+            },
+            6 => EventKind::ContinuityContextSelectionDecided {
+                run_session_id: self.text(16),
+                message_id: self.id("m"),
+                compiler_id: self.text(16),
+                compiler_strategy: self.text(32),
+                limits: self.value(2),
+                compaction_checkpoint: self.opt(|g| g.ckpt()),
+                compaction_checkpoints: {
+                    let n = self.rng.usize(3);
+                    (0..n).map(|_| self.ckpt()).collect()
+                },
+                resets: {
+                    let n = self.rng.usize(3);
+                    (0..n)
+                        .map(|_| ContextSelectionResetV1 {
+                            input: self.text(16),
+                            action: self.text(8),
+                            reason: self.text(16),
+                            ref_: self.opt(|g| g.value(1)),
+                        })
+                        .collect()
+                },
+                reason: self.opt(|g| g.value(2)),
+                actor_id: self.id("actor"),
+                origin: self.text(8),
+            },
+            7 => EventKind::ContinuityContextCompiled {
+                run_session_id: self.text(16),
+                bundle_artifact_id: if self.rng.bool() { hex64(self.rng) } else { self.text(16) },
+                compiler_id: self.text(16),
+                compiler_strategy: self.text(32),
+                from_seq: self.u64v(),
+                from_message_id: self.opt(|g| g.id("m")),
+                actor_id: self.id("actor"),
+                origin: self.text(8),
+            },
+            8 => EventKind::ContinuityProviderCursorUpdated {
+                provider: self.text(16),
+                endpoint: self.opt(|g| g.text(32)),
+                model: self.opt(|g| g.text(16)),
+                cursor: match self.rng.below(4) {
+                    0 => None,
+                    1 => Some(json!({"previous_response_id": self.text(16)})),
+                    2 => Some(json!({"previous_response_id": self.u64v()})),
+                    _ => Some(self.value(2)),
+                },
+                action: self.text(16),
+                reason: self.opt(|g| g.text(16)),
+                run_session_id: self.opt(|g| g.text(16)),
+                actor_id: self.id("actor"),
+                origin: self.text(8),
+            },
+            9 => EventKind::ContinuityCompactionCheckpointCreated {
+                checkpoint_id: self.text(16),
+                cut_rule_id: self.text(32),
+                summary_kind: self.text(16),
+                summary_artifact_id: if self.rng.bool() { hex64(self.rng) } else { self.text(16) },
+                from_seq: self.u64v(),
+                from_message_id: self.opt(|g| g.id("m")),
+                to_seq: self.u64v(),
+                to_message_id: self.opt(|g| g.id("m")),
+                actor_id: self.id("actor"),
+                origin: self.text(8),
+            },
+            10 => EventKind::ContinuityCompactionAutoScheduleDecided {
+                decision_id: self.id("d"),
+                policy_id: self.text(32),
+                decision: self.text(32),
+                execute: self.rng.bool(),
+                stride_messages: self.u64v(),
+                max_new_checkpoints: self.rng.next_u64() as u32,
+                block_on_inflight: self.rng.bool(),
+                message_count: self.u64v(),
+                cut_rule_id: self.text(32),
+                planned: {
+                    let n = self.rng.usize(3);
+                    (0..n)
+                        .map(|_| CompactionPlannedCutPoint {
+                            target_message_ordinal: self.u64v(),
+                            to_seq: self.u64v(),
+                            to_message_id: self.id("m"),
+                        })
+                        .collect()
+                },
+                job_id: self.opt(|g| g.text(16)),
+                job_kind: self.opt(|g| g.text(16)),
+                reason: self.opt(|g| g.value(2)),
+                actor_id: self.id("actor"),
+                origin: self.text(8),
+            },
+            11 => EventKind::ContinuityJobSpawned {
+                job_id: self.id("j"),
+                job_kind: self.text(32),
+                details: self.opt(|g| g.value(2)),
+                actor_id: self.id("actor"),
+                origin: self.text(8),
+            },
+            12 => EventKind::ContinuityJobEnded {
+                job_id: self.id("j"),
+                job_kind: self.text(32),
+                status: self.text(32),
+                result: self.opt(|g| g.value(2)),
+                error: self.opt(|g| g.text(64)),
+                actor_id: self.id("actor"),
+                origin: self.text(8),
+            },
+            13 => EventKind::ContinuityRunEnded {
+                run_session_id: self.text(16),
+                message_id: self.id("m"),
+                reason: self.text(32),
+                actor_id: self.opt(|g| g.id("actor")),
+                origin: self.opt(|g| g.text(8)),
+            },
+            14 => EventKind::ContinuityToolSideEffects {
+                run_session_id: self.text(16),
+                tool_id: self.id("t"),
+                tool_name: self.text(32),
+                affected_paths: self.opt(|g| g.strings(3)),
+                checkpoint_id: self.opt(|g| g.id("ck")),
+                actor_id: self.id("actor"),
+                origin: self.text(8),
+            },
+            15 => EventKind::ContinuityBranched {
+                parent_thread_id: self.text(16),
+                parent_seq: self.u64v(),
+                parent_message_id: self.opt(|g| g.id("m")),
+                actor_id: self.id("actor"),
+                origin: self.text(8),
+            },
+            16 => EventKind::ContinuityHandoffCreated {
+                from_thread_id: self.text(16),
+                from_seq: self.u64v(),
+                from_message_id: self.opt(|g| g.id("m")),
+                summary_artifact_id: self.opt(|g| hex64(g.rng)),
+                summary_markdown: self.opt(|g| g.text(64)),
+                actor_id: self.id("actor"),
+                origin: self.text(8),
+            },
+            17 => EventKind::ToolStarted {
+                tool_id: self.id("t"),
+                name: self.name(),
+                args: self.value(3),
+                timeout_ms: self.opt(|g| g.u64v()),
+            },
+            18 => {
+                let chunk = self.chunk();
+                EventKind::ToolStdout { tool_id: if chunk.len() > 1000 { "t1".into() } else { self.id("t") }, chunk }
+            }
+            19 => {
+                let chunk = self.chunk();
+                EventKind::ToolStderr { tool_id: if chunk.len() > 1000 { "t1".into() } else { self.id("t") }, chunk }
+            }
+            20 => EventKind::ToolEnded {
+                tool_id: self.id("t"),
+                exit_code: *self.rng.pick(&[0, 1, -1, 101, i32::MAX, i32::MIN]),
+                duration_ms: self.u64v(),
+                artifacts: self.artifacts(),
+            },
+            21 => EventKind::ToolFailed { tool_id: self.id("t"), error: self.text(64) },
+            22 => EventKind::OpenResponsesRequest {
+                endpoint: self.endpoint(),
+                model: self.opt(|g| g.text(40)),
+                request_index: self.u64v(),
+                kind: self.text(8),
+                body_artifact_id: if self.rng.bool() { hex64(self.rng) } else { self.text(16) },
+                body_bytes: self.u64v(),
+                total_bytes: self.u64v(),
+                truncated: self.rng.bool(),
+            },
+            23 => EventKind::OpenResponsesRequestStarted {
+                endpoint: self.endpoint(),
+                model: self.opt(|g| g.text(40)),
+                request_index: if self.rng.bool() { 0 } else { self.u64v() },
+                kind: self.text(8),
+            },
+            24 => EventKind::OpenResponsesResponseHeaders {
+                request_index: if self.rng.bool() { 0 } else { self.u64v() },
+                status: *self.rng.pick(&[0u16, 200, 404, 500, u16::MAX]),
+                request_id: self.opt(|g| g.text(16)),
+                content_type: self.opt(|g| g.text(16)),
+            },
+            25 => EventKind::OpenResponsesResponseFirstByte {
+                request_index: if self.rng.bool() { 0 } else { self.u64v() },
+            },
+            26 => EventKind::ProviderEvent {
+                provider: if self.rng.chance(2, 3) { "openresponses".into() } else { self.text(8) },
+                status: match self.rng.below(3) {
+                    0 => ProviderEventStatus::Event,
+                    1 => ProviderEventStatus::Done,
+                    _ => ProviderEventStatus::InvalidJson,
+                },
+                event_name: self.opt(|g| g.text(32)),
+                data: self.opt(|g| g.value(3)),
+                raw: self.opt(|g| g.text(120)),
+                errors: if self.rng.chance(1, 3) { self.strings(5) } else { Vec::new() },
+                response_errors: if self.rng.chance(1, 3) { self.strings(5) } else { Vec::new() },
+            },
+            27 => EventKind::CheckpointCreated {
+                checkpoint_id: self.id("ck"),
+                label: self.text(64),
+                created_at_ms: self.u64v(),
+                files: self.strings(3),
+                auto: self.rng.bool(),
+                tool_name: self.opt(|g| g.name()),
+            },
+            28 => EventKind::CheckpointRewound {
+                checkpoint_id: self.id("ck"),
+                label: self.text(64),
+                files: self.strings(3),
+            },
+            29 => EventKind::CheckpointFailed {
+                action: if self.rng.bool() { CheckpointAction::Create } else { CheckpointAction::Rewind },
+                error: self.text(64),
+            },
+            30 => EventKind::ToolTaskSpawned {
+                task_id: self.id("k"),
+                tool_name: self.name(),
+                args: self.value(3),
+                cwd: self.opt(|g| g.text(32)),
+                title: self.opt(|g| g.name()),
+                execution_mode: if self.rng.bool() { ToolTaskExecutionMode::Pipes } else { ToolTaskExecutionMode::Pty },
+                origin_session_id: self.opt(|g| g.text(16)),
+                artifacts: self.artifacts(),
+            },
+            31 => EventKind::ToolTaskStatus {
+                task_id: self.id("k"),
+                status: self.task_status(),
+                exit_code: self.opt(|g| *g.rng.pick(&[0, 1, -1, i32::MAX, i32::MIN])),
+                started_at_ms: self.opt(|g| g.u64v()),
+                ended_at_ms: self.opt(|g| g.u64v()),
+                artifacts: self.artifacts(),
+                error: self.opt(|g| g.text(80)),
+            },
+            32 => EventKind::ToolTaskCancelRequested { task_id: self.id("k"), reason: self.text(64) },
+            33 => EventKind::ToolTaskCancelled {
+                task_id: self.id("k"),
+                reason: self.text(64),
+                wall_time_ms: self.opt(|g| g.u64v()),
+            },
+            34 => {
+                let chunk = self.chunk();
+                EventKind::ToolTaskOutputDelta {
+                    task_id: if chunk.len() > 1000 { "k1".into() } else { self.id("k") },
+                    stream: *self.rng.pick(&[ToolTaskStream::Stdout, ToolTaskStream::Stderr, ToolTaskStream::Pty]),
+                    chunk,
+                    artifacts: self.artifacts(),
+                }
+            }
+            35 => EventKind::ToolTaskStdinWritten { task_id: self.id("k"), chunk_b64: self.text(64) },
+            36 => EventKind::ToolTaskResized {
+                task_id: self.id("k"),
+                rows: *self.rng.pick(&[0u16, 1, 24, u16::MAX]),
+                cols: *self.rng.pick(&[0u16, 1, 80, u16::MAX]),
+            },
+            _ => EventKind::ToolTaskSignalled { task_id: self.id("k"), signal: self.text(8) },
+        }
+    }
+
+    fn endpoint(&mut self) -> String {
+        match self.rng.below(4) {
+            0 => "https://api.openai.com/v1/responses".into(),
+            1 => "https://openrouter.ai/api/v1/responses".into(),
+            2 => "http://127.0.0.1:1/v1/responses".into(),
+            _ => self.text(32),
+        }
+    }
+}
+
+// ---------------------------------------------------------------------------------------------
+// seq / timestamp / stream policies
+
+#[derive(Clone, Copy, Debug, PartialEq, Eq)]
+enum SeqPolicy {
+    Consecutive,
+    Gaps,
+    Repeats,
+    Decreasing,
+    Wild,
+    Mixed,
+}
+
+#[derive(Clone, Debug)]
+struct StreamGen {
+    id: String,
+    seq: u64,
+    policy: SeqPolicy,
+    ts: u64,
+    ts_policy: u8,
+    started: bool,
+}
+
+impl StreamGen {
+    fn new(rng: &mut Rng, n: usize, force_consecutive: bool) -> StreamGen {
+        let policy = if force_consecutive {
+            SeqPolicy::Consecutive
+        } else {
+            *rng.pick(&[
+                SeqPolicy::Consecutive,
+                SeqPolicy::Gaps,
+                SeqPolicy::Gaps,
+                SeqPolicy::Repeats,
+                SeqPolicy::Decreasing,
+                SeqPolicy::Wild,
+                SeqPolicy::Mixed,
+                SeqPolicy::Mixed,
+            ])
+        };
+        let seq = match rng.below(8) {
+            0 | 1 => 0,
+            2 => 1,
+            3 => 10,
+            4 => u64::MAX - rng.below(4),
+            5 => (i64::MAX as u64) - 1 + rng.below(4),
+            6 => rng.below(1000),
+            _ => rng.next_u64(),
+        };
+        StreamGen {
+            id: match rng.below(6) {
+                0 => String::new(),
+                1 => mixed(rng, 4),
+                _ => format!("s{}", n + 1),
+            },
+            seq,
+            policy,
+            ts: match rng.below(4) {
+                0 => 0,
+                1 => u64::MAX - rng.below(3),
+                2 => 1_700_000_000_000 + rng.below(1 << 20),
+                _ => rng.next_u64(),
+            },
+            ts_policy: rng.below(4) as u8,
+            started: false,
+        }
+    }
+
+    fn next_seq(&mut self, rng: &mut Rng) -> u64 {
+        if !self.started {
+            self.started = true;
+            return self.seq;
+        }
+        let p = if self.policy == SeqPolicy::Mixed {
+            *rng.pick(&[
+                SeqPolicy::Consecutive,
+                SeqPolicy::Consecutive,
+                SeqPolicy::Gaps,
+                SeqPolicy::Repeats,
+                SeqPolicy::Decreasing,
+                SeqPolicy::Wild,
+            ])
+        } else {
+            self.policy
+        };
+        self.seq = match p {
+            SeqPolicy::Consecutive | SeqPolicy::Mixed => self.seq.wrapping_add(1),
+            SeqPolicy::Gaps => self.seq.wrapping_add(if rng.chance(1, 3) { 2 + rng.below(4) } else { 1 }),
+            SeqPolicy::Repeats => {
+                if rng.chance(1, 3) {
+                    self.seq
+                } else {
+                    self.seq.wrapping_add(1)
+                }
+            }
+            SeqPolicy::Decreasing => self.seq.wrapping_sub(1 + rng.below(3)),
+            SeqPolicy::Wild => {
+                if rng.bool() {
+                    *rng.pick(&U64_SPECIAL)
+                } else {
+                    rng.next_u64()
+                }
+            }
+        };
+        self.seq
+    }
+
+    fn next_ts(&mut self, rng: &mut Rng) -> u64 {
+        self.ts = match self.ts_policy {
+            0 => self.ts.saturating_add(rng.below(50)),
+            1 => self.ts.wrapping_sub(rng.below(5000)),
+            2 => {
+                if rng.chance(1, 4) {
+                    *rng.pick(&U64_SPECIAL)
+                } else {
+                    self.ts.wrapping_add(rng.below(10_000))
+                }
+            }
+            _ => rng.next_u64(),
+        };
+        self.ts
+    }
+}
+
+// ---------------------------------------------------------------------------------------------
+// scripts
+
+#[derive(Clone, Debug)]
+enum UiOp {
+    ToggleView,
+    ToggleTheme,
+    ToggleActivity,
+    ToggleTasks,
+    OpenDetail,
+    CloseOverlay,
+    ToggleFollow,
+    Move(i64),
+    SelectSeq(Option<u64>),
+    PinActivity(bool),
+    Now(u64),
+    Status(String),
+    SetOverlay(Overlay),
+}
+
+#[derive(Clone, Debug)]
+enum Step {
+    Frame(Event),
+    Ui(UiOp),
+}
+
+fn apply_ui(state: &mut TuiState, op: &UiOp) {
+    match op {
+        UiOp::ToggleView => state.toggle_output_view(),
+        UiOp::ToggleTheme => state.toggle_theme(),
+        UiOp::ToggleActivity => state.toggle_activity_overlay(),
+        UiOp::ToggleTasks => state.toggle_tasks_overlay(),
+        UiOp::OpenDetail => state.open_selected_detail(),
+        UiOp::CloseOverlay => state.close_overlay(),
+        UiOp::ToggleFollow => state.auto_follow = !state.auto_follow,
+        UiOp::Move(delta) => {
+            // rip-cli/src/fullscreen.rs move_selected (private there), re-stated
+            state.auto_follow = false;
+            match state.selected_seq {
+                None => state.selected_seq = state.frames.last_seq(),
+                Some(selected) => {
+                    let next = if *delta < 0 {
+                        selected.saturating_sub(delta.unsigned_abs())
+                    } else {
+                        selected.saturating_add(*delta as u64)
+                    };
+                    let clamped = next
+                        .max(state.frames.first_seq().unwrap_or(next))
+                        .min(state.frames.last_seq().unwrap_or(next));
+                    state.selected_seq = Some(clamped);
+                }
+            }
+        }
+        UiOp::SelectSeq(s) => {
+            state.auto_follow = false;
+            state.selected_seq = *s;
+        }
+        UiOp::PinActivity(b) => state.activity_pinned = *b,
+        UiOp::Now(ms) => state.set_now_ms(*ms),
+        UiOp::Status(s) => state.set_status_message(s.clone()),
+        UiOp::SetOverlay(o) => state.overlay = o.clone(),
+    }
+}
+
+struct Case {
+    max_frames: usize,
+    max_output: usize,
+    steps: Vec<Step>,
+    input: String,
+    extra_sizes: Vec<(u16, u16)>,
+    consecutive_only: bool,
+    streams: usize,
+}
+
+const MAX_FRAMES_POOL: [usize; 9] = [0, 1, 2, 3, 4, 10, 10, 64, 10_000];
+const MAX_OUTPUT_POOL: [usize; 14] = [0, 1, 2, 3, 4, 5, 7, 8, 16, 64, 64, 256, 1024, 1_000_000];
+const SIZES: [(u16, u16); 8] = [(20, 5), (60, 20), (80, 24), (120, 40), (1, 1), (13, 10), (100, 30), (40, 4)];
+
+fn gen_case(cfg: &Cfg, rng: &mut Rng) -> Case {
+    let max_frames = *rng.pick(&MAX_FRAMES_POOL);
+    let max_output = *rng.pick(&MAX_OUTPUT_POOL);
+    // one case in six is a well-ordered single stream: the class on which lookups must be exact
+    let consecutive_only = rng.chance(1, 6);
+    let n_streams = if consecutive_only { 1 } else { 1 + rng.usize(3) };
+    let mut streams: Vec<StreamGen> = (0..n_streams).map(|i| StreamGen::new(rng, i, consecutive_only)).collect();
+    let n_steps = match rng.below(4) {
+        0 => 1 + rng.usize(6),
+        1 | 2 => 5 + rng.usize(cfg.tier.pick(40, 80)),
+        _ => 20 + rng.usize(cfg.tier.pick(100, 300)),
+    };
+    let out_hint = if max_output > 4096 { 64 } else { max_output };
+    let big_budget = if rng.chance(1, 3) { 2 + rng.usize(4) } else { 0 };
+    // under Miri multi-KiB strings cost minutes (char-wise generation and Debug escaping)
+    let light = LIGHT.load(std::sync::atomic::Ordering::Relaxed);
+    let big_budget = if light { 0 } else { big_budget };
+    let out_hint = if light { out_hint.min(40) } else { out_hint };
+    let ui_rate = *rng.pick(&[0u64, 5, 15, 30]);
+    let uniform_variants = rng.bool();
+    let mut seen: Vec<u64> = Vec::new();
+    let mut steps = Vec::with_capacity(n_steps);
+    let mut g_big = big_budget;
+    if big_budget > 0 {
+        // the ids the multi-KiB chunks are addressed to exist, so the preview bound is really reached
+        for k in [
+            EventKind::ToolStarted { tool_id: "t1".into(), name: "cat".into(), args: json!({}), timeout_ms: None },
+            EventKind::ToolTaskSpawned {
+                task_id: "k1".into(),
+                tool_name: "bash".into(),
+                args: json!({}),
+                cwd: None,
+                title: None,
+                execution_mode: ToolTaskExecutionMode::Pipes,
+                origin_session_id: None,
+                artifacts: None,
+            },
+        ] {
+            let seq = streams[0].next_seq(rng);
+            let ts = streams[0].next_ts(rng);
+            seen.push(seq);
+            steps.push(Step::Frame(Event { id: format!("e{}", steps.len()), session_id: streams[0].id.clone(), timestamp_ms: ts, seq, kind: k }));
+        }
+    }
+    for _ in 0..n_steps {
+        if rng.below(100) < ui_rate {
+            let op = match rng.below(16) {
+                0 => UiOp::ToggleView,
+                1 => UiOp::ToggleTheme,
+                2 => UiOp::ToggleActivity,
+                3 => UiOp::ToggleTasks,
+                4 | 5 => UiOp::OpenDetail,
+                6 => UiOp::CloseOverlay,
+                7 => UiOp::ToggleFollow,
+                8 => UiOp::Move(if rng.bool() { -1 } else { 1 }),
+                9 => UiOp::SelectSeq(if seen.is_empty() || rng.chance(1, 8) {
+                    None
+                } else {
+                    let s = *rng.pick(&seen);
+                    Some(match rng.below(3) {
+                        0 => s,
+                        1 => s.wrapping_add(1),
+                        _ => s.wrapping_sub(1),
+                    })
+                }),
+                10 => UiOp::PinActivity(rng.bool()),
+                11 => UiOp::Now(*rng.pick(&U64_SPECIAL)),
+                12 => UiOp::Status(mixed(rng, 10)),
+                13 => UiOp::SetOverlay(Overlay::StallDetail),
+                14 => UiOp::SetOverlay(if rng.bool() {
+                    Overlay::ToolDetail { tool_id: format!("t{}", 1 + rng.below(3)) }
+                } else {
+                    Overlay::TaskDetail { task_id: format!("k{}", 1 + rng.below(3)) }
+                }),
+                _ => UiOp::SetOverlay(Overlay::ErrorDetail {
+                    seq: if seen.is_empty() { 0 } else { *rng.pick(&seen) },
+                }),
+            };
+            steps.push(Step::Ui(op));
+            continue;
+        }
+        let v = if uniform_variants || rng.bool() { rng.usize(N_VARIANTS) } else { *rng.pick(&HOT) };
+        let si = rng.usize(streams.len());
+        let seq = streams[si].next_seq(rng);
+        let ts = streams[si].next_ts(rng);
+        let session_id = streams[si].id.clone();
+        let kind = {
+            let mut g = Gen { rng, out_hint, big_budget: g_big };
+            let k = g.kind(v);
+            g_big = g.big_budget;
+            k
+        };
+        seen.push(seq);
+        steps.push(Step::Frame(Event {
+            id: format!("e{}", steps.len()),
+            session_id,
+            timestamp_ms: ts,
+            seq,
+            kind,
+        }));
+    }
+    let extra_sizes = vec![
+        (1 + rng.below(140) as u16, 1 + rng.below(50) as u16),
+        (8 + rng.below(100) as u16, 1 + rng.below(12) as u16),
+    ];
+    Case {
+        max_frames,
+        max_output,
+        steps,
+        input: if rng.bool() { String::new() } else { mixed(rng, 12) },
+        extra_sizes,
+        consecutive_only,
+        streams: n_streams,
+    }
+}
+
+// ---------------------------------------------------------------------------------------------
+// oracle
+
+#[derive(Clone, Debug)]
+struct Finding {
+    signature: String,
+    what: String,
+    detail: Value,
+}
+
+#[derive(Default)]
+struct Agg {
+    frames: u64,
+    ui_ops: u64,
+    evictions: u64,
+    output_truncations: u64,
+    preview_truncations: u64,
+    lookups: u64,
+    lookups_some: u64,
+    lookups_wrong: u64,
+    selected_checked: u64,
+    renders: u64,
+    render_panics: u64,
+    buffers_compared: u64,
+    debug_compared: u64,
+    debug_bytes: u64,
+    wire_roundtrips: u64,
+    accessor_calls: u64,
+    terminal_without_start: u64,
+    unknown_id_frames: u64,
+    nonconsecutive_cases: u64,
+    consecutive_cases: u64,
+    variants: Vec<u64>,
+    max_tools: usize,
+    max_tasks: usize,
+    max_jobs: usize,
+    max_artifacts: usize,
+    max_frames_len: usize,
+    max_output_len: usize,
+    max_preview_len: usize,
+}
+
+struct Tracker {
+    /// every push so far had seq == previous + 1 (no wrap): the class where `seq - base_seq`
+    /// addressing is exact by construction
+    consecutive: bool,
+    last_pushed: Option<u64>,
+    recent: Vec<u64>,
+    seen: BTreeSet<u64>,
+}
+
+impl Tracker {
+    fn new() -> Tracker {
+        Tracker { consecutive: true, last_pushed: None, recent: Vec::new(), seen: BTreeSet::new() }
+    }
+    fn pushed(&mut self, seq: u64) {
+        if let Some(prev) = self.last_pushed {
+            if prev.checked_add(1) != Some(seq) {
+                self.consecutive = false;
+            }
+        }
+        self.last_pushed = Some(seq);
+        if !self.recent.contains(&seq) {
+            if self.recent.len() >= 8 {
+                self.recent.remove(0);
+            }
+            self.recent.push(seq);
+        }
+        if self.seen.len() < 400 {
+            self.seen.insert(seq);
+        }
+    }
+    fn class(&self) -> &'static str {
+        if self.consecutive {
+            "consecutive_seq"
+        } else {
+            "nonconsecutive_seq"
+        }
+    }
+}
+
+fn window_seqs(state: &TuiState) -> Vec<u64> {
+    state.frames.iter().map(|e| e.seq).collect()
+}
+
+/// get_by_seq / index_of_seq / selected_event: "that frame or nothing, never a different one".
+fn check_lookups(state: &TuiState, probes: &[u64], tr: &Tracker, agg: &mut Agg) -> Vec<Finding> {
+    let mut out = Vec::new();
+    for &q in probes {
+        agg.lookups += 1;
+        if let Some(ev) = state.frames.get_by_seq(q) {
+            agg.lookups_some += 1;
+            if ev.seq != q {
+                agg.lookups_wrong += 1;
+                out.push(Finding {
+                    signature: format!("C20/lookup_by_seq_returns_other_frame/FrameStore::get_by_seq/{}", tr.class()),
+                    what: format!(
+                        "FrameStore::get_by_seq({q}) returned the frame with seq {} (window seqs {:?})",
+                        ev.seq,
+                        head(&window_seqs(state), 12)
+                    ),
+                    detail: json!({"asked": q.to_string(), "got": ev.seq.to_string(), "window": head(&window_seqs(state), 32)}),
+                });
+            }
+        }
+        if let Some(idx) = state.frames.index_of_seq(q) {
+            match state.frames.iter().nth(idx) {
+                Some(ev) if ev.seq == q => {}
+                Some(ev) => {
+                    out.push(Finding {
+                        signature: format!("C20/lookup_by_seq_returns_other_frame/FrameStore::index_of_seq/{}", tr.class()),
+                        what: format!(
+                            "FrameStore::index_of_seq({q}) = {idx}, but the frame at that index has seq {}",
+                            ev.seq
+                        ),
+                        detail: json!({"asked": q.to_string(), "index": idx, "got": ev.seq.to_string()}),
+                    });
+                }
+                None => {
+                    out.push(Finding {
+                        signature: "C20/lookup_by_seq_index_out_of_window/FrameStore::index_of_seq".into(),
+                        what: format!("FrameStore::index_of_seq({q}) = {idx} but the window holds {} frames", state.frames.len()),
+                        detail: json!({"asked": q.to_string(), "index": idx, "len": state.frames.len()}),
+                    });
+                }
+            }
+        }
+    }
+    agg.selected_checked += 1;
+    if let (Some(sel), Some(ev)) = (state.selected_seq, state.selected_event()) {
+        if ev.seq != sel {
+            out.push(Finding {
+                signature: format!("C20/lookup_by_seq_returns_other_frame/TuiState::selected_event/{}", tr.class()),
+                what: format!("selected_seq = {sel} but selected_event() is the frame with seq {}", ev.seq),
+                detail: json!({"selected_seq": sel.to_string(), "got": ev.seq.to_string(), "window": head(&window_seqs(state), 32)}),
+            });
+        }
+    }
+    out
+}
+
+fn head(v: &[u64], n: usize) -> Vec<String> {
+    v.iter().take(n).map(|x| x.to_string()).collect()
+}
+
+fn preview_lens(state: &TuiState) -> Vec<(&'static str, usize)> {
+    let mut out = Vec::new();
+    for t in state.tools.values() {
+        out.push(("tool_stdout_preview", t.stdout_preview.len()));
+        out.push(("tool_stderr_preview", t.stderr_preview.len()));
+    }
+    for t in state.tasks.values() {
+        out.push(("task_stdout_preview", t.stdout_preview.len()));
+        out.push(("task_stderr_preview", t.stderr_preview.len()));
+        out.push(("task_pty_preview", t.pty_preview.len()));
+    }
+    out
+}
+
+fn check_bounds(state: &TuiState, max_frames: usize, max_output: usize, agg: &mut Agg) -> Vec<Finding> {
+    let mut out = Vec::new();
+    let fl = state.frames.len();
+    agg.max_frames_len = agg.max_frames_len.max(fl);
+    if fl > max_frames.max(1) {
+        out.push(Finding {
+            signature: "C20/bound_exceeded/frames_len".into(),
+            what: format!("frames.len() = {fl} > max(1, max_frames = {max_frames})"),
+            detail: json!({"len": fl, "max_frames": max_frames}),
+        });
+    }
+    let ol = state.output_text.len();
+    if max_output < 1_000_000 {
+        agg.max_output_len = agg.max_output_len.max(ol);
+    }
+    if ol > max_output.max(1) {
+        out.push(Finding {
+            signature: "C20/bound_exceeded/output_text".into(),
+            what: format!("output_text.len() = {ol} > max(1, max_output_bytes = {max_output})"),
+            detail: json!({"len": ol, "max_output_bytes": max_output}),
+        });
+    }
+    for (name, len) in preview_lens(state) {
+        agg.max_preview_len = agg.max_preview_len.max(len);
+        if len > PREVIEW_LIMIT {
+            out.push(Finding {
+                signature: format!("C20/bound_exceeded/{name}"),
+                what: format!("{name}.len() = {len} > {PREVIEW_LIMIT}"),
+                detail: json!({"len": len, "limit": PREVIEW_LIMIT}),
+            });
+        }
+    }
+    agg.max_tools = agg.max_tools.max(state.tools.len());
+    agg.max_tasks = agg.max_tasks.max(state.tasks.len());
+    agg.max_jobs = agg.max_jobs.max(state.jobs.len());
+    agg.max_artifacts = agg.max_artifacts.max(state.artifacts.len());
+    out
+}
+
+fn check_accessors(state: &TuiState, agg: &mut Agg) -> Vec<Finding> {
+    agg.accessor_calls += 1;
+    set_context("accessor");
+    match guarded(|| {
+        let _ = state.ttft_ms();
+        let _ = state.e2e_ms();
+        let _ = state.openresponses_headers_ms();
+        let _ = state.openresponses_first_byte_ms();
+        let _ = state.openresponses_first_provider_event_ms();
+        let _ = state.is_stalled(5_000);
+        let _ = state.is_stalled(0);
+        let _ = state.has_error();
+        let _ = state.running_tool_ids().count();
+        let _ = state.running_task_ids().count();
+        let _ = state.running_job_ids().count();
+        let _ = state.frames.first_seq();
+        let _ = state.frames.last_seq();
+        let _ = state.frames.is_empty();
+    }) {
+        Ok(()) => Vec::new(),
+        Err(p) => vec![Finding {
+            signature: panic_signature("accessor", &p),
+            what: format!("a TuiState accessor panicked: {} ({}:{})", clip(&p.msg, 160), p.file, p.line),
+            detail: json!({"panic": p.msg, "file": p.file, "line": p.line, "site": p.site}),
+        }],
+    }
+}
+
+fn clip(s: &str, n: usize) -> String {
+    let mut out: String = s.chars().take(n).collect();
+    if out.len() < s.len() {
+        out.push('…');
+    }
+    out
+}
+
+fn render_buf(state: &TuiState, mode: RenderMode, input: &str, w: u16, h: u16) -> Result<Buffer, PanicRec> {
+    set_context(&format!("render/{}/{}/{}", state.output_view.as_str(), overlay_name(&state.overlay), state.activity_pinned && w >= 100));
+    guarded(|| {
+        let mut terminal = Terminal::new(TestBackend::new(w, h)).expect("test terminal");
+        terminal.draw(|f| rip_tui::render(f, state, mode, input)).expect("draw on TestBackend");
+        terminal.backend().buffer().clone()
+    })
+}
+
+fn overlay_name(o: &Overlay) -> &'static str {
+    match o {
+        Overlay::None => "none",
+        Overlay::Activity => "activity",
+        Overlay::ToolDetail { .. } => "tool_detail",
+        Overlay::TaskList => "task_list",
+        Overlay::TaskDetail { .. } => "task_detail",
+        Overlay::ErrorDetail { .. } => "error_detail",
+        Overlay::StallDetail => "stall_detail",
+    }
+}
+
+fn render_finding(state: &TuiState, mode: RenderMode, w: u16, h: u16, p: &PanicRec) -> Finding {
+    Finding {
+        signature: panic_signature("render", p),
+        what: format!(
+            "rip_tui::render panicked on a {w}x{h} terminal (view {}, overlay {}, mode {:?}): {} ({}:{})",
+            state.output_view.as_str(),
+            overlay_name(&state.overlay),
+            mode,
+            clip(&p.msg, 160),
+            p.file,
+            p.line
+        ),
+        detail: json!({"panic": p.msg, "file": p.file, "line": p.line, "site": p.site, "width": w, "height": h,
+                       "view": state.output_view.as_str(), "overlay": overlay_name(&state.overlay)}),
+    }
+}
+
+fn first_diff(a: &str, b: &str) -> Value {
+    let pos = a.bytes().zip(b.bytes()).position(|(x, y)| x != y).unwrap_or(a.len().min(b.len()));
+    let ex = |s: &str| {
+        let mut lo = pos.saturating_sub(60);
+        while lo > 0 && !s.is_char_boundary(lo) {
+            lo -= 1;
+        }
+        let mut hi = (pos + 60).min(s.len());
+        while hi < s.len() && !s.is_char_boundary(hi) {
+            hi += 1;
+        }
+        s.get(lo..hi).unwrap_or("").to_string()
+    };
+    json!({"first_difference_at_byte": pos, "a": ex(a), "b": ex(b), "len_a": a.len(), "len_b": b.len()})
+}
+
+/// The frame parser the SSE consumers (headless renderer, fullscreen TUI) run on every payload.
+fn check_wire(ev: &Event, agg: &mut Agg) -> (Option<String>, Vec<Finding>) {
+    agg.wire_roundtrips += 1;
+    let payload = match serde_json::to_string(ev) {
+        Ok(p) => p,
+        Err(e) => {
+            return (
+                None,
+                vec![Finding {
+                    signature: format!("C20/wellformed_frame_not_serializable/{}", VARIANT_NAMES[variant_index(&ev.kind)]),
+                    what: format!("serde_json::to_string(&Event) failed: {e}"),
+                    detail: json!({"error": e.to_string()}),
+                }],
+            )
+        }
+    };
+    match serde_json::from_str::<Event>(&payload) {
+        Ok(back) => {
+            let mut f = Vec::new();
+            if back.seq != ev.seq || back.timestamp_ms != ev.timestamp_ms || variant_index(&back.kind) != variant_index(&ev.kind) {
+                f.push(Finding {
+                    signature: format!("C20/frame_parser_changes_frame/{}", VARIANT_NAMES[variant_index(&ev.kind)]),
+                    what: "frame parsed back from its own wire form has a different seq / timestamp / type".into(),
+                    detail: json!({"payload": clip(&payload, 400)}),
+                });
+            }
+            (Some(payload), f)
+        }
+        Err(e) => (
+            Some(payload.clone()),
+            vec![Finding {
+                signature: format!("C20/wellformed_frame_rejected_by_frame_parser/{}", VARIANT_NAMES[variant_index(&ev.kind)]),
+                what: format!("a frame serialized by rip_kernel::Event is rejected by the frame parser of the surfaces: {e}"),
+                detail: json!({"payload": clip(&payload, 400), "error": e.to_string()}),
+            }],
+        ),
+    }
+}
+
+fn unknown_or_terminal_without_start(state: &TuiState, ev: &Event, agg: &mut Agg) {
+    match &ev.kind {
+        EventKind::ToolStdout { tool_id, .. }
+        | EventKind::ToolStderr { tool_id, .. }
+        | EventKind::ToolEnded { tool_id, .. }
+        | EventKind::ToolFailed { tool_id, .. } => {
+            if !state.tools.contains_key(tool_id) {
+                agg.unknown_id_frames += 1;
+                if matches!(ev.kind, EventKind::ToolEnded { .. } | EventKind::ToolFailed { .. }) {
+                    agg.terminal_without_start += 1;
+                }
+            }
+        }
+        EventKind::ToolTaskStatus { task_id, .. } | EventKind::ToolTaskOutputDelta { task_id, .. } | EventKind::ToolTaskCancelled { task_id, .. } => {
+            if !state.tasks.contains_key(task_id) {
+                agg.unknown_id_frames += 1;
+                if !matches!(ev.kind, EventKind::ToolTaskOutputDelta { .. }) {
+                    agg.terminal_without_start += 1;
+                }
+            }
+        }
+        EventKind::SessionEnded { .. } => {
+            if state.start_ms.is_none() {
+                agg.terminal_without_start += 1;
+            }
+        }
+        EventKind::ContinuityJobEnded { job_id, .. } => {
+            if !state.jobs.contains_key(job_id) {
+                agg.terminal_without_start += 1;
+            }
+        }
+        _ => {}
+    }
+}
+
+struct FoldOutcome {
+    findings: Vec<(usize, Finding)>,
+    shape: u64,
+    nontrivial: bool,
+    frames: usize,
+    aborted: bool,
+}
+
+/// Fold `case` into a fresh state with every check after every step, then into a second fresh
+/// state and into a clone taken mid-way, and compare.
+fn run_fold(case: &Case, rng: &mut Rng, agg: &mut Agg, render_in_steps: bool) -> FoldOutcome {
+    run_fold_with(case, rng, agg, render_in_steps, usize::MAX)
+}
+
+/// `end_sizes`: how many of the terminal sizes are rendered at the end of the case (Miri: 0 or 1).
+fn run_fold_with(case: &Case, rng: &mut Rng, agg: &mut Agg, render_in_steps: bool, end_sizes: usize) -> FoldOutcome {
+    let mut findings: Vec<(usize, Finding)> = Vec::new();
+    let mut a = TuiState::new(case.max_frames, case.max_output);
+    let cap = case.max_frames.max(1);
+    let mut tr = Tracker::new();
+    let mut shape: Vec<u8> = Vec::with_capacity(case.steps.len() * 4 + 8);
+    shape.extend_from_slice(&(case.max_frames as u32).to_le_bytes());
+    shape.extend_from_slice(&(case.max_output as u32).to_le_bytes());
+    let mut interesting = false;
+    let clone_at = rng.usize(case.steps.len().max(1));
+    let mut clone_c: Option<TuiState> = None;
+    let mut n_frames = 0usize;
+    let mut aborted = false;
+    let all_sizes: Vec<(u16, u16)> = SIZES.iter().copied().chain(case.extra_sizes.iter().copied()).collect();
+    let mut prev_stream: Option<String> = None;
+
+    for (i, step) in case.steps.iter().enumerate() {
+        if i == clone_at {
+            clone_c = Some(a.clone());
+        }
+        match step {
+            Step::Ui(op) => {
+                agg.ui_ops += 1;
+                shape.push(0xf0);
+                set_context("ui_op");
+                if let Err(p) = guarded(|| apply_ui(&mut a, op)) {
+                    findings.push((
+                        i,
+                        Finding {
+                            signature: panic_signature("ui_op", &p),
+                            what: format!("a TuiState UI operation panicked: {}", clip(&p.msg, 160)),
+                            detail: json!({"panic": p.msg, "file": p.file, "line": p.line, "site": p.site, "op": format!("{op:?}")}),
+                        },
+                    ));
+                    aborted = true;
+                    break;
+                }
+                findings.extend(check_lookups(&a, &[], &tr, agg).into_iter().map(|f| (i, f)));
+            }
+            Step::Frame(ev) => {
+                n_frames += 1;
+                agg.frames += 1;
+                let vi = variant_index(&ev.kind);
+                agg.variants[vi] += 1;
+                let (_, wf) = check_wire(ev, agg);
+                findings.extend(wf.into_iter().map(|f| (i, f)));
+                unknown_or_terminal_without_start(&a, ev, agg);
+                // shape: variant, relation of seq to the previous push, stream switch
+                let rel = match tr.last_pushed {
+                    None => 0u8,
+                    Some(p) if p.checked_add(1) == Some(ev.seq) => 1,
+                    Some(p) if ev.seq == p => 2,
+                    Some(p) if ev.seq > p => 3,
+                    Some(_) => 4,
+                };
+                let sw = prev_stream.as_deref() != Some(ev.session_id.as_str());
+                prev_stream = Some(ev.session_id.clone());
+                shape.push(vi as u8);
+                shape.push(rel | if sw { 0x10 } else { 0 } | if ev.seq >= u64::MAX - 2 { 0x20 } else { 0 });
+
+                let len_before = a.frames.len();
+                let out_before = a.output_text.len();
+                let prev_before: usize = preview_lens(&a).iter().map(|(_, l)| *l).sum();
+                let resets_preview = matches!(ev.kind, EventKind::ToolStarted { .. } | EventKind::ToolTaskSpawned { .. });
+                let seq = ev.seq;
+                let evc = ev.clone();
+                set_context("update");
+                if let Err(p) = guarded(|| a.update(evc)) {
+                    findings.push((
+                        i,
+                        Finding {
+                            signature: panic_signature("update", &p),
+                            what: format!(
+                                "TuiState::update panicked on a {} frame: {} ({}:{})",
+                                VARIANT_NAMES[vi],
+                                clip(&p.msg, 160),
+                                p.file,
+                                p.line
+                            ),
+                            detail: json!({"panic": p.msg, "file": p.file, "line": p.line, "site": p.site, "variant": VARIANT_NAMES[vi],
+                                           "seq": seq.to_string(), "timestamp_ms": ev.timestamp_ms.to_string()}),
+                        },
+                    ));
+                    aborted = true;
+                    break;
+                }
+                tr.pushed(seq);
+                if len_before >= cap {
+                    agg.evictions += 1;
+                    interesting = true;
+                }
+                if a.output_text.len() < out_before || (a.output_truncated && a.output_text.len() == out_before && out_before > 0 && vi <= 1) {
+                    agg.output_truncations += 1;
+                    interesting = true;
+                }
+                if !resets_preview {
+                    let prev_after: usize = preview_lens(&a).iter().map(|(_, l)| *l).sum();
+                    if prev_after < prev_before {
+                        agg.preview_truncations += 1;
+                        interesting = true;
+                    }
+                }
+                if !tr.consecutive {
+                    interesting = true;
+                }
+                findings.extend(check_bounds(&a, case.max_frames, case.max_output, agg).into_iter().map(|f| (i, f)));
+                let mut probes: Vec<u64> = vec![seq, seq.wrapping_sub(1), seq.wrapping_add(1), 0, u64::MAX];
+                for s in &tr.recent {
+                    probes.push(*s);
+                    probes.push(s.wrapping_add(1));
+                }
+                findings.extend(check_lookups(&a, &probes, &tr, agg).into_iter().map(|f| (i, f)));
+            }
+        }
+        findings.extend(check_accessors(&a, agg).into_iter().map(|f| (i, f)));
+        if render_in_steps {
+            let (w, h) = all_sizes[i % all_sizes.len()];
+            let mode = if i % 2 == 0 { RenderMode::Json } else { RenderMode::Decoded };
+            agg.renders += 1;
+            if let Err(p) = render_buf(&a, mode, &case.input, w, h) {
+                agg.render_panics += 1;
+                findings.push((i, render_finding(&a, mode, w, h, &p)));
+            }
+        }
+        if findings.len() > 64 {
+            // enough evidence from this case; the per-signature counters stay meaningful
+            findings.truncate(64);
+        }
+    }
+
+    if !aborted {
+        let last = case.steps.len().saturating_sub(1);
+        // all seqs ever seen and their neighbours
+        let mut probes: Vec<u64> = Vec::with_capacity(tr.seen.len() * 3);
+        for s in &tr.seen {
+            probes.push(*s);
+            probes.push(s.wrapping_add(1));
+            probes.push(s.wrapping_sub(1));
+        }
+        findings.extend(check_lookups(&a, &probes, &tr, agg).into_iter().map(|f| (last, f)));
+
+        // determinism: second fresh state, and the clone taken mid-way
+        let mut b = TuiState::new(case.max_frames, case.max_output);
+        let sleepy = rng.chance(1, 64);
+        set_context("second_fold");
+        let rb = guarded(|| {
+            for (i, step) in case.steps.iter().enumerate() {
+                if sleepy && i == case.steps.len() / 2 {
+                    std::thread::sleep(Duration::from_millis(3));
+                }
+                match step {
+                    Step::Ui(op) => apply_ui(&mut b, op),
+                    Step::Frame(ev) => b.update(ev.clone()),
+                }
+            }
+        });
+        let da = format!("{a:?}");
+        if rb.is_ok() {
+            let db = format!("{b:?}");
+            agg.debug_compared += 1;
+            agg.debug_bytes += da.len() as u64;
+            if da != db {
+                findings.push((
+                    last,
+                    Finding {
+                        signature: "C20/nondeterministic/state_debug".into(),
+                        what: "the same script folded into two fresh TuiStates gives different Debug renderings".into(),
+                        detail: first_diff(&da, &db),
+                    },
+                ));
+            }
+        } else {
+            findings.push((
+                last,
+                Finding {
+                    signature: "C20/nondeterministic/second_fold_panicked".into(),
+                    what: "the second fold of the same script panicked although the first did not".into(),
+                    detail: json!({}),
+                },
+            ));
+        }
+        if let Some(mut c) = clone_c {
+            let rc = guarded(|| {
+                for step in &case.steps[clone_at..] {
+                    match step {
+                        Step::Ui(op) => apply_ui(&mut c, op),
+                        Step::Frame(ev) => c.update(ev.clone()),
+                    }
+                }
+            });
+            if rc.is_ok() {
+                let dc = format!("{c:?}");
+                agg.debug_compared += 1;
+                if dc != da {
+                    findings.push((
+                        last,
+                        Finding {
+                            signature: "C20/nondeterministic/clone_then_suffix".into(),
+                            what: "a clone taken mid-way and fed the remaining frames differs from the original state".into(),
+                            detail: first_diff(&da, &dc),
+                        },
+                    ));
+                }
+            }
+        }
+        // render: total on every size, and a function of the state
+        for (w, h) in all_sizes.iter().skip(if end_sizes < all_sizes.len() { 1 } else { 0 }).take(end_sizes) {
+            for mode in [RenderMode::Json, RenderMode::Decoded] {
+                agg.renders += 2;
+                let ra = render_buf(&a, mode, &case.input, *w, *h);
+                let rb2 = render_buf(&b, mode, &case.input, *w, *h);
+                match (ra, rb2) {
+                    (Ok(x), Ok(y)) => {
+                        agg.buffers_compared += 1;
+                        if rb.is_ok() && x != y {
+                            findings.push((
+                                last,
+                                Finding {
+                                    signature: "C20/nondeterministic/render_buffer".into(),
+                                    what: format!("two states built from the same script render differently at {w}x{h}"),
+                                    detail: json!({"width": w, "height": h, "mode": format!("{mode:?}")}),
+                                },
+                            ));
+                        }
+                    }
+                    (Err(p), _) | (_, Err(p)) => {
+                        agg.render_panics += 1;
+                        findings.push((last, render_finding(&a, mode, *w, *h, &p)));
+                    }
+                }
+            }
+        }
+    }
+    if tr.consecutive {
+        agg.consecutive_cases += 1;
+    } else {
+        agg.nonconsecutive_cases += 1;
+    }
+    FoldOutcome {
+        findings,
+        shape: fnv(&shape),
+        nontrivial: n_frames >= 2 && interesting,
+        frames: n_frames,
+        aborted,
+    }
+}
+
+fn step_trace(case: &Case, upto: usize, n: usize) -> Vec<Value> {
+    let lo = (upto + 1).saturating_sub(n);
+    case.steps
+        .iter()
+        .enumerate()
+        .skip(lo)
+        .take(upto + 1 - lo)
+        .map(|(i, s)| match s {
+            Step::Frame(e) => json!({"i": i, "type": VARIANT_NAMES[variant_index(&e.kind)], "seq": e.seq.to_string(),
+                                     "ts": e.timestamp_ms.to_string(), "stream": e.session_id}),
+            Step::Ui(op) => json!({"i": i, "ui": clip(&format!("{op:?}"), 80)}),
+        })
+        .collect()
+}
+
+fn report_case(r: &mut Report, part: &str, idx: u64, case: &Case, out: &FoldOutcome) {
+    for (step, f) in &out.findings {
+        r.violation(
+            &f.signature,
+            &f.what,
+            json!({
+                "part": part, "case": idx, "step": step,
+                "max_frames": case.max_frames, "max_output_bytes": case.max_output,
+                "steps_total": case.steps.len(),
+                "trace_tail": step_trace(case, *step, 24),
+                "detail": f.detail,
+                "replay": "rv C20 --replay <this file> re-generates the case from seed + case index",
+            }),
+        );
+    }
+}
+
+// ---------------------------------------------------------------------------------------------
+// Part A — directed cases (run every time on shard 0)
+
+fn ev(seq: u64, ts: u64, kind: EventKind) -> Event {
+    Event { id: format!("d{seq}"), session_id: "s1".into(), timestamp_ms: ts, seq, kind }
+}
+
+fn delta(s: &str) -> EventKind {
+    EventKind::OutputTextDelta { delta: s.to_string() }
+}
+
+fn directed_case(name: &str, max_frames: usize, max_output: usize, steps: Vec<Step>) -> (String, Case) {
+    (
+        name.to_string(),
+        Case {
+            max_frames,
+            max_output,
+            steps,
+            input: String::new(),
+            extra_sizes: Vec::new(),
+            consecutive_only: false,
+            streams: 1,
+        },
+    )
+}
+
+fn directed_fold_cases() -> Vec<(String, Case)> {
+    let f = |seqs: &[u64]| -> Vec<Step> { seqs.iter().map(|s| Step::Frame(ev(*s, 1000, delta("x")))).collect() };
+    let mut v = vec![
+        // probe P1 of DESIGN.md §6
+        directed_case("p1_gap_10_12_13", 8, 1024, f(&[10, 12, 13])),
+        // auto-follow selects the seq just pushed; 11 arrives after 12
+        directed_case("selected_after_out_of_order_10_12_11", 8, 1024, f(&[10, 12, 11])),
+        directed_case("repeat_10_10_11", 8, 1024, f(&[10, 10, 11])),
+        directed_case("decreasing_5_4_3", 8, 1024, f(&[5, 4, 3])),
+        directed_case("evicting_window_with_gaps", 2, 1024, f(&[1, 3, 5, 7, 8])),
+        directed_case("saturated_base_at_u64_max", 2, 1024, f(&[u64::MAX - 1, u64::MAX, 0, 1, 2])),
+        directed_case("two_streams_interleaved", 10, 1024, {
+            let mut s = Vec::new();
+            for i in 0..6u64 {
+                let mut e = ev(i / 2, 1000 + i, delta("y"));
+                e.session_id = if i % 2 == 0 { "s1".into() } else { "s2".into() };
+                s.push(Step::Frame(e));
+            }
+            s
+        }),
+        // well-ordered control: must be exact
+        directed_case("consecutive_control_with_eviction", 3, 1024, f(&[7, 8, 9, 10, 11, 12])),
+        // timestamp extremes through every ms accessor
+        directed_case("timestamp_extremes", 10, 64, vec![
+            Step::Frame(ev(0, u64::MAX, EventKind::SessionStarted { input: "hi".into() })),
+            Step::Frame(ev(1, u64::MAX, EventKind::OpenResponsesRequestStarted { endpoint: "e".into(), model: None, request_index: 0, kind: "k".into() })),
+            Step::Frame(ev(2, 0, EventKind::OpenResponsesResponseHeaders { request_index: 0, status: 200, request_id: None, content_type: None })),
+            Step::Frame(ev(3, 0, EventKind::OpenResponsesResponseFirstByte { request_index: 0 })),
+            Step::Frame(ev(4, 0, EventKind::ProviderEvent { provider: "openresponses".into(), status: ProviderEventStatus::Event, event_name: None, data: None, raw: None, errors: vec![], response_errors: vec![] })),
+            Step::Frame(ev(5, 0, delta("a"))),
+            Step::Ui(UiOp::Now(0)),
+            Step::Frame(ev(6, 0, EventKind::SessionEnded { reason: "done".into() })),
+            Step::Ui(UiOp::Now(u64::MAX)),
+            Step::Ui(UiOp::SetOverlay(Overlay::StallDetail)),
+            Step::Ui(UiOp::ToggleActivity),
+        ]),
+        // terminal frames without a start, unknown ids
+        directed_case("terminals_without_start", 10, 64, vec![
+            Step::Frame(ev(0, 1, EventKind::ToolEnded { tool_id: "nope".into(), exit_code: 1, duration_ms: u64::MAX, artifacts: None })),
+            Step::Frame(ev(1, 1, EventKind::ToolFailed { tool_id: "nope".into(), error: "e".into() })),
+            Step::Ui(UiOp::OpenDetail),
+            Step::Frame(ev(2, 1, EventKind::ToolTaskStatus { task_id: "ghost".into(), status: ToolTaskStatus::Failed, exit_code: None, started_at_ms: None, ended_at_ms: None, artifacts: None, error: Some("x".into()) })),
+            Step::Frame(ev(3, 1, EventKind::ToolTaskOutputDelta { task_id: "ghost2".into(), stream: ToolTaskStream::Pty, chunk: "zz".into(), artifacts: None })),
+            Step::Frame(ev(4, 1, EventKind::ContinuityJobEnded { job_id: "j".into(), job_kind: "k".into(), status: "s".into(), result: None, error: None, actor_id: "a".into(), origin: "o".into() })),
+            Step::Frame(ev(5, 1, EventKind::SessionEnded { reason: "r".into() })),
+            Step::Ui(UiOp::OpenDetail),
+            Step::Ui(UiOp::ToggleTasks),
+        ]),
+    ];
+    // truncation-boundary sweep for output_text: capacity × char width × byte offset
+    let mut steps = Vec::new();
+    for (w, c) in [(1usize, 'a'), (2, 'é'), (3, '中'), (4, '🙂')] {
+        for off in 0..4usize {
+            let _ = w;
+            steps.push((c, off));
+        }
+    }
+    for m in [0usize, 1, 2, 3, 4, 5, 7, 8, 9, 16, 33] {
+        let mut s = Vec::new();
+        let mut seq = 0u64;
+        for (c, off) in &steps {
+            for extra in [0usize, 1, 2, 3] {
+                s.push(Step::Frame(ev(seq, 5, delta(&uniform(*c, *off, m + extra)))));
+                seq += 1;
+            }
+            s.push(Step::Frame(ev(seq, 5, EventKind::SessionStarted { input: uniform(*c, *off, m / 2 + 1) })));
+            seq += 1;
+        }
+        v.push(directed_case(&format!("output_boundary_sweep_max{m}"), 4, m, s));
+    }
+    // preview sweep: the 8 KiB cut falls at every offset inside 2/3/4-byte characters
+    let mut s = Vec::new();
+    let mut seq = 0u64;
+    s.push(Step::Frame(ev(seq, 1, EventKind::ToolStarted { tool_id: "t1".into(), name: "cat".into(), args: json!({}), timeout_ms: None })));
+    s.push(Step::Frame(ev(seq + 1, 1, EventKind::ToolTaskSpawned { task_id: "k1".into(), tool_name: "bash".into(), args: json!({}), cwd: None, title: None, execution_mode: ToolTaskExecutionMode::Pty, origin_session_id: None, artifacts: None })));
+    seq += 2;
+    for c in ['a', 'é', '中', '🙂'] {
+        for off in 0..4usize {
+            let chunk = uniform(c, off, PREVIEW_LIMIT + 1 + off);
+            let k = match (seq / 2) % 5 {
+                0 => EventKind::ToolStdout { tool_id: "t1".into(), chunk },
+                1 => EventKind::ToolStderr { tool_id: "t1".into(), chunk },
+                2 => EventKind::ToolTaskOutputDelta { task_id: "k1".into(), stream: ToolTaskStream::Stdout, chunk, artifacts: None },
+                3 => EventKind::ToolTaskOutputDelta { task_id: "k1".into(), stream: ToolTaskStream::Stderr, chunk, artifacts: None },
+                _ => EventKind::ToolTaskOutputDelta { task_id: "k1".into(), stream: ToolTaskStream::Pty, chunk, artifacts: None },
+            };
+            s.push(Step::Frame(ev(seq, 1, k)));
+            s.push(Step::Frame(ev(seq + 1, 1, EventKind::ToolStdout { tool_id: "t1".into(), chunk: uniform(c, (off + 1) % 4, 4097) })));
+            seq += 2;
+        }
+    }
+    v.push(directed_case("preview_boundary_sweep_8k", 4, 64, s));
+    v
+}
+
+/// Fixed states for the render sweep: what a narrow or squeezed terminal shows during an
+/// ordinary run (a running tool, context compiled, artifacts, an error, tasks).
+fn sweep_states() -> Vec<(&'static str, TuiState)> {
+    let mut out = Vec::new();
+    let base = |name: &str| {
+        let mut s = TuiState::new(100, 4096);
+        s.update(ev(0, 1000, EventKind::SessionStarted { input: "list the files".into() }));
+        s.update(ev(1, 1100, EventKind::ToolStarted { tool_id: "t1".into(), name: name.into(), args: json!({"path": "."}), timeout_ms: None }));
+        s
+    };
+    out.push(("running_tool_ls", base("ls")));
+    out.push(("running_tool_cat", base("cat")));
+    let mut s = base("bash");
+    s.update(ev(2, 1200, EventKind::ContinuityContextCompiled {
+        run_session_id: "s1".into(), bundle_artifact_id: format!("{:064x}", 7), compiler_id: "c".into(),
+        compiler_strategy: "recent_messages_v1".into(), from_seq: 0, from_message_id: None, actor_id: "u".into(), origin: "cli".into() }));
+    s.update(ev(3, 1300, EventKind::ToolTaskSpawned { task_id: "k1".into(), tool_name: "bash".into(), args: json!({}), cwd: None,
+        title: Some("build".into()), execution_mode: ToolTaskExecutionMode::Pipes, origin_session_id: None, artifacts: None }));
+    s.update(ev(4, 1400, EventKind::ContinuityJobSpawned { job_id: "j1".into(), job_kind: "compaction_summarizer_v1".into(), details: None, actor_id: "u".into(), origin: "cli".into() }));
+    s.update(ev(5, 1500, EventKind::ToolFailed { tool_id: "t9".into(), error: "boom".into() }));
+    s.update(ev(6, 1600, delta("hello wörld 中文 🙂\nsecond line")));
+    out.push(("tool_ctx_task_job_error", s));
+    out.push(("empty", TuiState::new(100, 4096)));
+    out
+}
+
+fn render_sweep(r: &mut Report, agg: &mut Agg) {
+    let overlays: Vec<Overlay> = vec![
+        Overlay::None,
+        Overlay::Activity,
+        Overlay::TaskList,
+        Overlay::ToolDetail { tool_id: "t1".into() },
+        Overlay::TaskDetail { task_id: "k1".into() },
+        Overlay::ErrorDetail { seq: 5 },
+        Overlay::StallDetail,
+    ];
+    let mut sizes: Vec<(u16, u16)> = Vec::new();
+    // descending, so that the witness kept per signature is the LARGEST terminal that panics
+    for h in (1..=30u16).rev() {
+        sizes.push((80, h));
+        sizes.push((24, h));
+    }
+    for w in (1..=130u16).rev() {
+        sizes.push((w, 24));
+    }
+    sizes.extend_from_slice(&SIZES);
+    let mut n = 0u64;
+    let mut panicking: std::collections::BTreeMap<String, BTreeSet<(u16, u16)>> = Default::default();
+    for (name, st) in sweep_states() {
+        for raw in [false, true] {
+            for ov in &overlays {
+                let mut s = st.clone();
+                if raw {
+                    s.toggle_output_view();
+                }
+                s.overlay = ov.clone();
+                for (w, h) in &sizes {
+                    n += 1;
+                    agg.renders += 1;
+                    let mode = if (w + h) % 2 == 0 { RenderMode::Json } else { RenderMode::Decoded };
+                    if let Err(p) = render_buf(&s, mode, "", *w, *h) {
+                        agg.render_panics += 1;
+                        let f = render_finding(&s, mode, *w, *h, &p);
+                        panicking.entry(f.signature.clone()).or_default().insert((*w, *h));
+                        r.violation(
+                            &f.signature,
+                            &f.what,
+                            json!({"part": "directed", "name": "render_sweep", "state": name, "detail": f.detail,
+                                   "repro": "TuiState as in c20.rs sweep_states(), rip_tui::render on TestBackend::new(width, height)"}),
+                        );
+                    }
+                }
+            }
+        }
+    }
+    r.count("directed_render_sweep_renders", n);
+    let mut m = serde_json::Map::new();
+    for (sig, set) in panicking {
+        let v: Vec<String> = set.iter().rev().take(48).map(|(w, h)| format!("{w}x{h}")).collect();
+        m.insert(sig, json!({"sizes": set.len(), "largest_first": v}));
+    }
+    r.note("render_sweep_panicking_terminal_sizes", Value::Object(m));
+}
+
+fn run_directed(r: &mut Report, agg: &mut Agg, only: Option<&str>) {
+    if only.is_none() || only == Some("render_sweep") {
+        r.eval();
+        render_sweep(r, agg);
+    }
+    let mut rng = Rng::new(20);
+    for (name, case) in directed_fold_cases() {
+        if let Some(o) = only {
+            if o != name {
+                continue;
+            }
+        }
+        r.eval();
+        let out = run_fold(&case, &mut rng, agg, true);
+        r.distinct_str(&format!("directed:{name}"));
+        r.count("directed_cases", 1);
+        for (step, f) in &out.findings {
+            r.violation(
+                &f.signature,
+                &f.what,
+                json!({"part": "directed", "name": name, "step": step, "max_frames": case.max_frames,
+                       "max_output_bytes": case.max_output, "trace_tail": step_trace(&case, *step, 12), "detail": f.detail}),
+            );
+        }
+    }
+}
+
+// ---------------------------------------------------------------------------------------------
+// Part B — the real headless renderers behind a fake authority
+
+struct CliOut {
+    code: Option<i32>,
+    stdout: Vec<u8>,
+    stderr: Vec<u8>,
+    timed_out: bool,
+    wall_ms: u128,
+}
+
+fn run_cli(bin: &str, server: &str, prompt: &str, view: &str) -> std::io::Result<CliOut> {
+    use std::io::Read;
+    use std::process::{Command, Stdio};
+    let start = Instant::now();
+    let mut c = Command::new(bin);
+    c.arg("run").arg(prompt).arg("--server").arg(server).arg("--headless").arg("true").arg("--view").arg(view);
+    for k in ["http_proxy", "HTTP_PROXY", "https_proxy", "HTTPS_PROXY", "all_proxy", "ALL_PROXY", "RIP_VERIF_DELAY", "RIP_VERIF_ABORT"] {
+        c.env_remove(k);
+    }
+    c.env("NO_PROXY", "127.0.0.1,localhost").env("RUST_BACKTRACE", "0");
+    c.stdin(Stdio::null()).stdout(Stdio::piped()).stderr(Stdio::piped());
+    let mut child = c.spawn()?;
+    let mut so = child.stdout.take().expect("stdout");
+    let mut se = child.stderr.take().expect("stderr");
+    let t1 = std::thread::spawn(move || {
+        let mut b = Vec::new();
+        let _ = so.read_to_end(&mut b);
+        b
+    });
+    let t2 = std::thread::spawn(move || {
+        let mut b = Vec::new();
+        let _ = se.read_to_end(&mut b);
+        b
+    });
+    let deadline = Instant::now() + Duration::from_secs(20);
+    let mut timed_out = false;
+    let code = loop {
+        match child.try_wait()? {
+            Some(st) => break st.code(),
+            None => {
+                if Instant::now() > deadline {
+                    timed_out = true;
+                    let _ = child.kill();
+                    let st = child.wait()?;
+                    break st.code();
+                }
+                std::thread::sleep(Duration::from_millis(2));
+            }
+        }
+    };
+    Ok(CliOut {
+        code,
+        stdout: t1.join().unwrap_or_default(),
+        stderr: t2.join().unwrap_or_default(),
+        timed_out,
+        wall_ms: start.elapsed().as_millis(),
+    })
+}
+
+fn hostile_chunks(rng: &mut Rng, len: usize) -> (Vec<usize>, u64) {
+    let mut chunks = Vec::new();
+    let mut left = len;
+    let style = rng.below(4);
+    // cap the number of chunks so that a run stays in the tens of milliseconds
+    while left > 0 && chunks.len() < 1500 {
+        let n = match style {
+            0 => 1 + rng.usize(3),
+            1 => 1 + rng.usize(17),
+            2 => 1 + rng.usize(200),
+            _ => *rng.pick(&[1usize, 2, 3, 5, 6, 7, 64, 1000]),
+        }
+        .min(left);
+        chunks.push(n);
+        left -= n;
+    }
+    (chunks, if rng.chance(1, 3) { 50 } else { 0 })
+}
+
+fn gen_cli_frames(cfg: &Cfg, rng: &mut Rng) -> Vec<Event> {
+    let n = match rng.below(4) {
+        0 => 1 + rng.usize(3),
+        _ => 3 + rng.usize(cfg.tier.pick(70, 160)),
+    };
+    let n_streams = 1 + rng.usize(2);
+    let mut streams: Vec<StreamGen> = (0..n_streams).map(|i| StreamGen::new(rng, i, false)).collect();
+    // where the terminal frame sits: none / middle (frames after it must not be rendered) / end
+    let term = match rng.below(4) {
+        0 => None,
+        1 => Some(rng.usize(n)),
+        _ => Some(n - 1),
+    };
+    let mut big = if rng.chance(1, 4) { 2 } else { 0 };
+    let mut out = Vec::new();
+    for i in 0..n {
+        let v = if Some(i) == term {
+            2
+        } else if rng.chance(1, 3) {
+            *rng.pick(&[0usize, 1, 1, 1, 18, 19, 21, 23, 24, 25, 26, 26])
+        } else {
+            let mut v = rng.usize(N_VARIANTS);
+            // a second terminal frame only by explicit choice above
+            if v == 2 && term.is_some() && rng.chance(3, 4) {
+                v = 1;
+            }
+            v
+        };
+        let si = rng.usize(streams.len());
+        let seq = streams[si].next_seq(rng);
+        let ts = streams[si].next_ts(rng);
+        let kind = {
+            let mut g = Gen { rng, out_hint: 64, big_budget: big };
+            let k = g.kind(v);
+            big = g.big_budget;
+            k
+        };
+        out.push(Event { id: format!("c{i}"), session_id: streams[si].id.clone(), timestamp_ms: ts, seq, kind });
+    }
+    out
+}
+
+fn rip_bin() -> String {
+    std::env::var("RV_RIP_BIN").unwrap_or_else(|_| DEFAULT_RIP_BIN.to_string())
+}
+
+fn cli_case(cfg: &Cfg, r: &mut Report, fa: &FakeAuthority, bin: &str, j: u64) {
+    let mut rng = cfg.case_rng(CLI_LANE + j);
+    let frames = gen_cli_frames(cfg, &mut rng);
+    let payloads: Vec<String> = frames.iter().filter_map(|e| serde_json::to_string(e).ok()).collect();
+    if payloads.len() != frames.len() {
+        r.inconclusive(&format!("cli case {j}: a generated frame could not be serialized"));
+        return;
+    }
+    let first_end = frames.iter().position(|e| matches!(e.kind, EventKind::SessionEnded { .. }));
+    let upto = first_end.map(|p| p + 1).unwrap_or(frames.len());
+    let mut expected_raw: Vec<u8> = Vec::new();
+    for p in &payloads[..upto] {
+        expected_raw.extend_from_slice(p.as_bytes());
+        expected_raw.push(b'\n');
+    }
+    let body_plain = sse_body(&payloads, None);
+    let body_ka = sse_body(&payloads, Some(1 + rng.usize(4)));
+    let (chunks, pause_us) = hostile_chunks(&mut rng, body_ka.len());
+    let shape: Vec<u8> = frames.iter().map(|e| variant_index(&e.kind) as u8).collect();
+    let witness = |view: &str, extra: Value| {
+        json!({"part": "cli", "case": j, "view": view, "frames": payloads.len(), "terminal_at": first_end,
+               "types": frames.iter().map(|e| VARIANT_NAMES[variant_index(&e.kind)]).collect::<Vec<_>>(),
+               "payloads_head": payloads.iter().take(6).map(|p| clip(p, 300)).collect::<Vec<_>>(),
+               "chunks_head": chunks.iter().take(16).collect::<Vec<_>>(), "detail": extra,
+               "repro": "rv C20 --replay <this file>; or: rv fakeauth --frames <payloads.jsonl> & rip run x --server http://127.0.0.1:PORT --view <view>"})
+    };
+    for view in ["raw", "output", "metrics"] {
+        let pa = format!("c20-{j}-{view}-a");
+        let pb = format!("c20-{j}-{view}-b");
+        fa.register(&pa, StreamSpec { body: body_plain.clone(), chunks: Vec::new(), pause_us: 0 });
+        fa.register(&pb, StreamSpec { body: body_ka.clone(), chunks: chunks.clone(), pause_us });
+        let mut outs: Vec<CliOut> = Vec::new();
+        let mut harness_problem = false;
+        for p in [&pa, &pb] {
+            match run_cli(bin, &fa.base_url(), p, view) {
+                Ok(o) => outs.push(o),
+                Err(e) => {
+                    r.inconclusive(&format!("cli case {j}: cannot run {bin}: {e}"));
+                    harness_problem = true;
+                    break;
+                }
+            }
+        }
+        fa.unregister(&pa);
+        fa.unregister(&pb);
+        if harness_problem {
+            return;
+        }
+        r.count("cli_runs", outs.len() as u64);
+        r.count("cli_wall_ms", outs.iter().map(|o| o.wall_ms as u64).sum());
+        let mut judged = true;
+        for (k, o) in outs.iter().enumerate() {
+            let stderr = String::from_utf8_lossy(&o.stderr).to_string();
+            if o.code == Some(101) || stderr.contains("panicked at") {
+                let at = stderr
+                    .lines()
+                    .find(|l| l.contains("panicked at"))
+                    .map(|l| clip(&l[l.find("panicked at").unwrap_or(0)..], 200))
+                    .unwrap_or_default();
+                // "thread 'main' panicked at crates/rip-cli/src/main.rs:881:21:" -> file part only
+                let file = at.split("panicked at ").nth(1).and_then(|s| s.split(':').next()).map(basename).unwrap_or("?").to_string();
+                r.violation(
+                    &format!("C20/cli_panic/{view}/{file}"),
+                    &format!("`rip run --view {view}` panicked while consuming well-formed frames: {at}"),
+                    witness(view, json!({"exit_code": o.code, "stderr": clip(&stderr, 1200), "chunked": k == 1})),
+                );
+                judged = false;
+            } else if o.timed_out {
+                r.inconclusive(&format!("cli case {j} view {view}: no exit within the watchdog (20 s)"));
+                judged = false;
+            } else if o.code != Some(0) {
+                if stderr.contains("invalid event frame") {
+                    let lines = o.stdout.iter().filter(|b| **b == b'\n').count();
+                    let which = if view == "raw" { frames.get(lines).map(|e| VARIANT_NAMES[variant_index(&e.kind)]) } else { None };
+                    r.violation(
+                        &format!("C20/cli_rejects_wellformed_frame/{}", which.unwrap_or("unknown_variant")),
+                        &format!("`rip run --view {view}` rejected a frame serialized by rip_kernel::Event: {}", clip(&stderr, 300)),
+                        witness(view, json!({"exit_code": o.code, "stderr": clip(&stderr, 1200), "chunked": k == 1})),
+                    );
+                } else {
+                    r.inconclusive(&format!(
+                        "cli case {j} view {view}: exit {:?} without a frame error: {}",
+                        o.code,
+                        clip(&stderr, 200)
+                    ));
+                }
+                judged = false;
+            }
+        }
+        if !judged {
+            continue;
+        }
+        r.eval();
+        r.distinct(fnv(&shape) ^ crate::prng::fnv_str(view));
+        r.count("cli_stdout_bytes_compared", outs[0].stdout.len() as u64);
+        if outs[0].stdout != outs[1].stdout {
+            let a = String::from_utf8_lossy(&outs[0].stdout).to_string();
+            let b = String::from_utf8_lossy(&outs[1].stdout).to_string();
+            r.violation(
+                &format!("C20/cli_same_frames_different_stdout/{view}"),
+                &format!("`rip run --view {view}` printed different stdout for the same frames (whole body vs. chunked body with keep-alive comments)"),
+                witness(view, first_diff(&a, &b)),
+            );
+        } else {
+            r.count("cli_pairs_equal", 1);
+        }
+        if view == "raw" {
+            for (k, o) in outs.iter().enumerate() {
+                if o.stdout != expected_raw {
+                    let a = String::from_utf8_lossy(&expected_raw).to_string();
+                    let b = String::from_utf8_lossy(&o.stdout).to_string();
+                    let class = if o.stdout.len() > expected_raw.len() && o.stdout.starts_with(&expected_raw) {
+                        "frames_after_terminal_frame_echoed"
+                    } else if expected_raw.starts_with(&o.stdout) {
+                        "frames_missing"
+                    } else {
+                        "payload_altered"
+                    };
+                    r.violation(
+                        &format!("C20/cli_raw_view_not_an_echo/{class}"),
+                        "raw view stdout differs from the frame payloads up to the terminal frame",
+                        witness(view, json!({"chunked": k == 1, "diff": first_diff(&a, &b)})),
+                    );
+                } else {
+                    r.count("cli_raw_echo_exact", 1);
+                }
+            }
+        }
+        if view == "metrics" && first_end.is_some() {
+            let ok = serde_json::from_slice::<Value>(&outs[0].stdout).is_ok();
+            r.count(if ok { "cli_metrics_json_ok" } else { "cli_metrics_not_json" }, 1);
+        }
+    }
+}
+
+fn cli_part(cfg: &Cfg, r: &mut Report, only: Option<u64>) {
+    let bin = rip_bin();
+    if !std::path::Path::new(&bin).is_file() {
+        r.inconclusive(&format!(
+            "headless part skipped: {bin} not found (build with lib/build.sh --with-rip or set RV_RIP_BIN)"
+        ));
+        r.note("cli_binary", json!({"path": bin, "present": false}));
+        return;
+    }
+    r.note("cli_binary", json!({"path": bin, "present": true}));
+    let fa = FakeAuthority::start();
+    if let Some(j) = only {
+        cli_case(cfg, r, &fa, &bin, j);
+        return;
+    }
+    let per_shard = cfg.tier.pick(8u64, 600u64);
+    let share = cfg.tier.pick(0.35, 0.25);
+    let mut done = 0u64;
+    let mut j = 0u64;
+    while done < per_shard && r.elapsed() < cfg.budget_s * share {
+        let idx = j;
+        j += 1;
+        if !cfg.mine(idx) {
+            continue;
+        }
+        cli_case(cfg, r, &fa, &bin, idx);
+        done += 1;
+    }
+    r.count("cli_cases", done);
+    r.count("fake_authority_requests", fa.request_count() as u64);
+}
+
+// ---------------------------------------------------------------------------------------------
 
 pub fn run(cfg: &Cfg) -> i32 {
-    let mut r = Report::new("C20", "exploration", "not built");
-    r.fatal_inconclusive("monitor not built yet");
+    let mut r = Report::new(
+        "C20",
+        "exploration",
+        "seeded frame scripts over all 38 EventKind variants (table-driven) with seq policies consecutive/gaps/repeats/\
+         decreasing/wild/mixed (0, u64::MAX, wrap), 1–3 interleaved stream ids, arbitrary timestamps, unknown ids, terminal \
+         frames without start, text sized around every truncation bound with 1–4-byte characters at every offset, UI \
+         operations interleaved; capacities max_frames∈{0,1,2,3,4,10,64,10000} × max_output_bytes∈{0..1e6}; plus directed \
+         boundary/render sweeps and the real `rip run --view raw|output|metrics` behind a fake authority. A case is \
+         non-trivial when ≥2 frames were folded and an eviction, an output/preview truncation or a non-consecutive seq \
+         occurred; distinct = hash of (capacities, per-step variant, seq relation to the previous push, stream switch, \
+         extreme-seq flag); CLI cases: distinct (variant sequence, view)",
+    );
+    r.assume("TestBackend rendering exercises the same rip_tui::render code as a real terminal backend");
+    r.assume("preview bound is the crate-private DEFAULT_MAX_PREVIEW_BYTES = 8192 (not configurable through TuiState::new)");
+    r.assume("map sizes (tools/tasks/jobs/artifacts) and the headless renderers' buffers are recorded, not judged: no configured bound governs them");
+    r.assume("UI operations are those reachable through TuiState's public API / rip-cli fullscreen key handlers (move_selected re-stated)");
+    install_hook();
+    let mut agg = Agg { variants: vec![0; N_VARIANTS], ..Agg::default() };
+
+    if let Some(path) = &cfg.replay {
+        replay(cfg, &mut r, &mut agg, path);
+        finish_evidence(&mut r, &agg);
+        return r.finish(cfg);
+    }
+
+    // thorough tier, shard 0: Miri pass over the pure fold, as a child process next to the fold loop
+    let mut miri: Option<MiriJob> = None;
+    if cfg.shard.0 == 0 && cfg.tier == crate::report::Tier::Thorough && !cfg.has_flag("--no-miri") || cfg.has_flag("--miri") && cfg.shard.0 == 0 {
+        match miri_spawn(cfg) {
+            Ok(j) => miri = Some(j),
+            Err(e) => r.inconclusive(&format!("Miri pass skipped: {e}")),
+        }
+    }
+    if cfg.shard.0 == 0 {
+        run_directed(&mut r, &mut agg, None);
+        r.note("directed_wall_s", json!((r.elapsed() * 100.0).round() / 100.0));
+    }
+    if !cfg.has_flag("--no-cli") {
+        cli_part(cfg, &mut r, None);
+    }
+
+    let max_cases = cfg.tier.pick(40_000u64, 50_000_000u64);
+    let mut idx = 0u64;
+    let mut sampled = 0;
+    while idx < max_cases && !r.over(cfg) {
+        let i = idx;
+        idx += 1;
+        if !cfg.mine(i) {
+            continue;
+        }
+        let mut rng = cfg.case_rng(i);
+        let case = gen_case(cfg, &mut rng);
+        let out = run_fold(&case, &mut rng, &mut agg, true);
+        r.eval();
+        if out.nontrivial {
+            r.distinct(out.shape);
+        }
+        report_case(&mut r, "fold", i, &case, &out);
+        if sampled < 3 && out.frames >= 5 {
+            sampled += 1;
+            r.sample(json!({
+                "case": i, "max_frames": case.max_frames, "max_output_bytes": case.max_output, "streams": case.streams,
+                "consecutive_only": case.consecutive_only, "steps": case.steps.len(), "frames": out.frames,
+                "aborted_by_panic": out.aborted, "trace_head": step_trace(&case, case.steps.len().min(8).saturating_sub(1), 8),
+            }));
+        }
+    }
+    r.count("fold_cases", r.evaluations);
+    if let Some(job) = miri {
+        // Miri may use the whole budget of the shard plus a short grace period
+        let deadline = r.start + Duration::from_secs_f64(cfg.budget_s + 20.0);
+        miri_collect(&mut r, job, deadline);
+    }
+    finish_evidence(&mut r, &agg);
+    if agg.frames == 0 {
+        r.fatal_inconclusive("no frame was folded");
+    }
     r.finish(cfg)
+}
+
+fn finish_evidence(r: &mut Report, agg: &Agg) {
+    r.count("frames_folded", agg.frames);
+    r.count("ui_ops_applied", agg.ui_ops);
+    r.count("evictions", agg.evictions);
+    r.count("output_truncations", agg.output_truncations);
+    r.count("preview_truncations", agg.preview_truncations);
+    r.count("lookups_checked", agg.lookups);
+    r.count("lookups_returning_a_frame", agg.lookups_some);
+    r.count("lookups_returning_other_frame", agg.lookups_wrong);
+    r.count("selected_event_checks", agg.selected_checked);
+    r.count("renders", agg.renders);
+    r.count("render_panics", agg.render_panics);
+    r.count("render_buffers_compared", agg.buffers_compared);
+    r.count("state_debug_comparisons", agg.debug_compared);
+    r.count("state_debug_bytes_compared", agg.debug_bytes);
+    r.count("frame_parser_roundtrips", agg.wire_roundtrips);
+    r.count("accessor_sweeps", agg.accessor_calls);
+    r.count("terminal_frames_without_start", agg.terminal_without_start);
+    r.count("frames_for_unknown_ids", agg.unknown_id_frames);
+    r.count("cases_nonconsecutive_seq", agg.nonconsecutive_cases);
+    r.count("cases_consecutive_seq", agg.consecutive_cases);
+    let covered = agg.variants.iter().filter(|n| **n > 0).count();
+    r.count("variants_covered_in_this_shard", covered as u64);
+    let mut per: serde_json::Map<String, Value> = serde_json::Map::new();
+    for (i, n) in agg.variants.iter().enumerate() {
+        per.insert(VARIANT_NAMES[i].to_string(), json!(n));
+    }
+    r.note("frames_per_variant_first_shard", Value::Object(per));
+    r.note(
+        "recorded_not_judged_first_shard",
+        json!({"max_tools": agg.max_tools, "max_tasks": agg.max_tasks, "max_jobs": agg.max_jobs, "max_artifacts": agg.max_artifacts}),
+    );
+    r.note(
+        "max_observed_first_shard",
+        json!({"frames_len": agg.max_frames_len, "output_text_len_when_bound_below_1e6": agg.max_output_len, "preview_len": agg.max_preview_len}),
+    );
+}
+
+fn replay(cfg: &Cfg, r: &mut Report, agg: &mut Agg, path: &std::path::Path) {
+    let doc: Value = match std::fs::read(path).ok().and_then(|b| serde_json::from_slice(&b).ok()) {
+        Some(v) => v,
+        None => {
+            r.fatal_inconclusive("cannot read the replay witness");
+            return;
+        }
+    };
+    let w = doc.get("witness").cloned().unwrap_or(Value::Null);
+    let part = w.get("part").and_then(|x| x.as_str()).unwrap_or("");
+    // the witness fixes seed and tier; the case index regenerates the script
+    let mut c2 = cfg.clone();
+    if let Some(s) = doc.get("seed").and_then(|x| x.as_u64()) {
+        c2.seed = s;
+    }
+    if doc.get("tier").and_then(|x| x.as_str()) == Some("thorough") {
+        c2.tier = crate::report::Tier::Thorough;
+    }
+    match part {
+        "directed" => {
+            let name = w.get("name").and_then(|x| x.as_str()).unwrap_or("");
+            run_directed(r, agg, Some(name));
+        }
+        "cli" => {
+            let j = w.get("case").and_then(|x| x.as_u64()).unwrap_or(0);
+            cli_part(&c2, r, Some(j));
+        }
+        "fold" => {
+            let i = w.get("case").and_then(|x| x.as_u64()).unwrap_or(0);
+            let mut rng = c2.case_rng(i);
+            let case = gen_case(&c2, &mut rng);
+            let out = run_fold(&case, &mut rng, agg, true);
+            r.eval();
+            report_case(r, "fold", i, &case, &out);
+        }
+        _ => r.fatal_inconclusive("witness has no known part (directed|cli|fold)"),
+    }
+}
+
+// ---------------------------------------------------------------------------------------------
+// Miri pass over the pure fold (thorough tier): `miri-c20/` is a tiny crate that includes this
+// file and calls `miri_main`; the parent `rv C20 --tier thorough` runs it under
+// `cargo +nightly miri run` and turns its FINDING lines / a Miri abort into verdicts.
+
+pub fn miri_main() -> i32 {
+    // parameters come as program arguments: cargo-miri replays the BUILD-time environment
+    let args: Vec<u64> = std::env::args().skip(1).filter_map(|a| a.parse().ok()).collect();
+    let first = args.first().copied().unwrap_or(0);
+    let cases = args.get(1).copied().unwrap_or(12);
+    let seed = args.get(2).copied().unwrap_or(1);
+    let cfg = Cfg {
+        id: "C20".into(),
+        tier: crate::report::Tier::Quick,
+        seed,
+        out: std::path::PathBuf::from("/dev/null"),
+        shard: (0, 1),
+        replay: None,
+        root: std::path::PathBuf::from("/nonexistent"),
+        budget_s: 1e9,
+        extra: Vec::new(),
+    };
+    let mut agg = Agg { variants: vec![0; N_VARIANTS], ..Agg::default() };
+    let mut sigs: BTreeSet<String> = BTreeSet::new();
+    LIGHT.store(true, std::sync::atomic::Ordering::Relaxed);
+    for i in first..first + cases {
+        let mut rng = cfg.case_rng(i);
+        let mut case = gen_case(&cfg, &mut rng);
+        case.steps.truncate(24);
+        case.extra_sizes.clear();
+        let out = run_fold_with(&case, &mut rng, &mut agg, false, 0);
+        for (_, f) in &out.findings {
+            if sigs.insert(f.signature.clone()) {
+                println!("FINDING {} :: {}", f.signature, clip(&f.what, 200).replace('\n', " "));
+            }
+        }
+        println!("CASE-DONE {i} frames={} lookups={} debug_comparisons={}", agg.frames, agg.lookups, agg.debug_compared);
+        if i == first + 2 {
+            // one render (the layout solver costs tens of seconds per draw under Miri)
+            if let Some((_, st)) = sweep_states().into_iter().nth(2) {
+                if let Err(p) = render_buf(&st, RenderMode::Json, "", 80, 24) {
+                    println!("FINDING {} :: render panicked under Miri: {}", panic_signature("render", &p), clip(&p.msg, 160));
+                } else {
+                    println!("RENDER-DONE 80x24");
+                }
+            }
+        }
+    }
+    println!("MIRI-DONE cases={cases}");
+    0
+}
+
+struct MiriJob {
+    child: std::process::Child,
+    started: Instant,
+    first: u64,
+    cases: u64,
+}
+
+fn miri_spawn(cfg: &Cfg) -> Result<MiriJob, String> {
+    use std::process::{Command, Stdio};
+    let harness = std::env::var("RV_HARNESS_DIR").unwrap_or_else(|_| env!("CARGO_MANIFEST_DIR").to_string());
+    let manifest = std::path::Path::new(&harness).join("miri-c20").join("Cargo.toml");
+    if !manifest.is_file() {
+        return Err(format!("{} not found", manifest.display()));
+    }
+    let target = std::env::current_exe()
+        .ok()
+        .and_then(|e| e.parent().and_then(|p| p.parent()).map(|p| p.join("miri-c20")))
+        .unwrap_or_else(|| std::env::temp_dir().join(format!("rv-miri-{}", std::process::id())));
+    let cases = 40u64;
+    let first = cfg.seed.wrapping_mul(1000) % 100_000;
+    let mut c = Command::new("cargo");
+    c.arg("+nightly").arg("miri").arg("run").arg("--offline").arg("--quiet").arg("--manifest-path").arg(&manifest);
+    c.arg("--").arg(first.to_string()).arg(cases.to_string()).arg(cfg.seed.to_string());
+    c.env("MIRIFLAGS", "-Zmiri-disable-isolation").env("CARGO_NET_OFFLINE", "true").env("CARGO_TARGET_DIR", &target);
+    c.stdin(Stdio::null()).stdout(Stdio::piped()).stderr(Stdio::piped());
+    let child = c.spawn().map_err(|e| format!("cannot start cargo +nightly miri: {e}"))?;
+    Ok(MiriJob { child, started: Instant::now(), first, cases })
+}
+
+fn miri_collect(r: &mut Report, mut job: MiriJob, deadline: Instant) {
+    use std::io::Read;
+    let mut killed = false;
+    loop {
+        match job.child.try_wait() {
+            Ok(Some(_)) => break,
+            Ok(None) => {
+                if Instant::now() > deadline {
+                    let _ = job.child.kill();
+                    killed = true;
+                    let _ = job.child.wait();
+                    break;
+                }
+                std::thread::sleep(Duration::from_millis(100));
+            }
+            Err(_) => break,
+        }
+    }
+    let mut out = String::new();
+    let mut err = String::new();
+    if let Some(mut s) = job.child.stdout.take() {
+        let _ = s.read_to_string(&mut out);
+    }
+    if let Some(mut s) = job.child.stderr.take() {
+        let _ = s.read_to_string(&mut err);
+    }
+    let done = out.lines().filter(|l| l.starts_with("CASE-DONE")).count() as u64;
+    let finished = out.lines().any(|l| l.starts_with("MIRI-DONE"));
+    r.count("miri_cases_completed", done);
+    r.count("miri_renders_completed", out.lines().filter(|l| l.starts_with("RENDER-DONE")).count() as u64);
+    r.note(
+        "miri",
+        json!({"first_case": job.first, "cases_requested": job.cases, "cases_completed": done, "ran_to_end": finished,
+               "stopped_by_budget": killed, "wall_s": job.started.elapsed().as_secs(),
+               "last_line": out.lines().last().unwrap_or("")}),
+    );
+    for l in out.lines() {
+        if let Some(rest) = l.strip_prefix("FINDING ") {
+            let (sig, what) = rest.split_once(" :: ").unwrap_or((rest, ""));
+            r.violation(sig, &format!("(under Miri) {what}"), json!({"part": "miri", "first_case": job.first, "cases": job.cases}));
+        }
+    }
+    if err.contains("Undefined Behavior") {
+        let at = err.lines().find(|l| l.contains("Undefined Behavior")).unwrap_or("");
+        r.violation(
+            "C20/miri/undefined_behavior",
+            &format!("Miri reports undefined behaviour in the fold: {}", clip(at, 240)),
+            json!({"part": "miri", "first_case": job.first, "cases": job.cases, "stderr": clip(&err, 3000)}),
+        );
+    } else if !finished && !killed {
+        r.inconclusive(&format!("Miri pass did not run to the end (not a verdict): {}", clip(err.trim(), 300)));
+    } else if done == 0 {
+        r.inconclusive("Miri pass completed no case within its share of the budget");
+    }
 }
